@@ -1,2 +1,2071 @@
-(* C16 - placeholder *)
-From Coq Require Import NArith.
+(* C16 - TL-B: for every covered type, the library's hand-written parser (as traced into the decision tree
+   impl_<T> of Gen/TlbImpl.v) returns every field with the encoded value and consumes exactly the encoded
+   bits and references, for every value encoded as block.tlb prescribes (Spec/BlockTlb.v, Spec/Tlb.v).
+
+   Shape of each of the 87 theorems:  for every value v admitted by the layout spec_<T> (wt), its
+   encoding (bits, refs) per the schema (encode), any trailing bits tb and references tr, and any fuel
+   above the stated bound, run_type on the cell (bits ++ tb, refs ++ tr) returns v and the slice (tb, tr).
+   Each is an instance of Proofs/TlbProofs.v: compile_correct (generic, proved once) transferred to the
+   generated tree by the computational check impl_<T> = compile spec_<T> (impl_agree).
+   Each Example exhibits a well-typed value, whose encoding exists and is parsed back by the tree.
+
+   Dictionary-valued fields (HashmapE n X) are covered: a non-empty dictionary is encoded as the
+   canonical Patricia tree of Spec/Hashmap.v with the reference label kinds (the value must fit the cell
+   limits, which [encode] checks).  Not covered: addr_var addresses (not representable in the model).
+   Types of Spec/BlockTlb.v whose layout refers to a type outside spec_table (Transaction, MessageAny,
+   ValidatorSet, WorkchainDescr, GasLimitsPrices, ConsensusConfig, JettonBridgeParams, WalletMessage) have the tree
+   equality (TlbProofs.impl_<T>_is_spec) but no theorem here:
+   TransactionSplitInstall, TransactionMergeInstall, MsgEnvelope, ConfigParam32, ConfigParam33,
+   ConfigParam34, ConfigParam35, ConfigParam36, ConfigParam37, ConfigParam12, ConfigParam20,
+   ConfigParam21, ConfigParam29, ConfigParam79, ConfigParam81, ConfigParam82, HighloadWalletData.
+   Findings (tree <> compilation of the faithful layout; TlbProofs.impl_<T>_differs):
+   WorkchainFormat 0 / 1, JettonBridgeParams. *)
+From Coq Require Import NArith ZArith List Bool String.
+From PTQ Require Import Base.Result Model.Cell Model.Builder Model.Dtree Spec.Tlb Spec.BlockTlb Gen.TlbImpl
+  Proofs.TlbProofs.
+Import ListNotations.
+Local Open Scope Z_scope.
+
+(* well-typedness of a closed value, by computation *)
+Local Ltac wt_tac := vm_compute; repeat split; try reflexivity; try discriminate.
+
+(* ---- AccStatusChange ---- *)
+Theorem C16_AccStatusChange : forall v tb tr bits refs fuel,
+  wt spec_table spec_AccStatusChange v -> encode spec_table spec_AccStatusChange v = Ok (bits, refs) -> (8 <= fuel)%nat ->
+  run_type impl_table fuel "AccStatusChange" [] (Cell (-1) (bits ++ tb) (refs ++ tr)) = Ok (v, mkS tb tr).
+Proof. exact (C16_generic "AccStatusChange" spec_AccStatusChange 8 eq_refl eq_refl). Qed.
+Print Assumptions C16_AccStatusChange.
+
+Definition ex_AccStatusChange : pv :=
+  PObj "AccStatusChange" [("type_"%string, PStr "deleted")].
+Example C16_AccStatusChange_ex :
+  wt spec_table spec_AccStatusChange ex_AccStatusChange /\
+  match encode spec_table spec_AccStatusChange ex_AccStatusChange with
+  | Ok (bits, refs) =>
+      run_type impl_table 8 "AccStatusChange" [] (Cell (-1) (bits ++ [true; false]) (refs ++ [Cell (-1) [] []]))
+      = Ok (ex_AccStatusChange, mkS [true; false] [Cell (-1) [] []])
+  | Err _ => False
+  end.
+Proof. split; [wt_tac|vm_compute; reflexivity]. Qed.
+
+(* ---- AccountStatus ---- *)
+Theorem C16_AccountStatus : forall v tb tr bits refs fuel,
+  wt spec_table spec_AccountStatus v -> encode spec_table spec_AccountStatus v = Ok (bits, refs) -> (8 <= fuel)%nat ->
+  run_type impl_table fuel "AccountStatus" [] (Cell (-1) (bits ++ tb) (refs ++ tr)) = Ok (v, mkS tb tr).
+Proof. exact (C16_generic "AccountStatus" spec_AccountStatus 8 eq_refl eq_refl). Qed.
+Print Assumptions C16_AccountStatus.
+
+Definition ex_AccountStatus : pv :=
+  PObj "AccountStatus" [("type_"%string, PStr "nonexist")].
+Example C16_AccountStatus_ex :
+  wt spec_table spec_AccountStatus ex_AccountStatus /\
+  match encode spec_table spec_AccountStatus ex_AccountStatus with
+  | Ok (bits, refs) =>
+      run_type impl_table 8 "AccountStatus" [] (Cell (-1) (bits ++ [true; false]) (refs ++ [Cell (-1) [] []]))
+      = Ok (ex_AccountStatus, mkS [true; false] [Cell (-1) [] []])
+  | Err _ => False
+  end.
+Proof. split; [wt_tac|vm_compute; reflexivity]. Qed.
+
+(* ---- ComputeSkipReason ---- *)
+Theorem C16_ComputeSkipReason : forall v tb tr bits refs fuel,
+  wt spec_table spec_ComputeSkipReason v -> encode spec_table spec_ComputeSkipReason v = Ok (bits, refs) -> (10 <= fuel)%nat ->
+  run_type impl_table fuel "ComputeSkipReason" [] (Cell (-1) (bits ++ tb) (refs ++ tr)) = Ok (v, mkS tb tr).
+Proof. exact (C16_generic "ComputeSkipReason" spec_ComputeSkipReason 10 eq_refl eq_refl). Qed.
+Print Assumptions C16_ComputeSkipReason.
+
+Definition ex_ComputeSkipReason : pv :=
+  PObj "ComputeSkipReason" [("type_"%string, PStr "suspended")].
+Example C16_ComputeSkipReason_ex :
+  wt spec_table spec_ComputeSkipReason ex_ComputeSkipReason /\
+  match encode spec_table spec_ComputeSkipReason ex_ComputeSkipReason with
+  | Ok (bits, refs) =>
+      run_type impl_table 10 "ComputeSkipReason" [] (Cell (-1) (bits ++ [true; false]) (refs ++ [Cell (-1) [] []]))
+      = Ok (ex_ComputeSkipReason, mkS [true; false] [Cell (-1) [] []])
+  | Err _ => False
+  end.
+Proof. split; [wt_tac|vm_compute; reflexivity]. Qed.
+
+(* ---- TickTock ---- *)
+Theorem C16_TickTock : forall v tb tr bits refs fuel,
+  wt spec_table spec_TickTock v -> encode spec_table spec_TickTock v = Ok (bits, refs) -> (6 <= fuel)%nat ->
+  run_type impl_table fuel "TickTock" [] (Cell (-1) (bits ++ tb) (refs ++ tr)) = Ok (v, mkS tb tr).
+Proof. exact (C16_generic "TickTock" spec_TickTock 6 eq_refl eq_refl). Qed.
+Print Assumptions C16_TickTock.
+
+Definition ex_TickTock : pv :=
+  PObj "TickTock" [("tick"%string, PBool true); ("tock"%string, PBool true)].
+Example C16_TickTock_ex :
+  wt spec_table spec_TickTock ex_TickTock /\
+  match encode spec_table spec_TickTock ex_TickTock with
+  | Ok (bits, refs) =>
+      run_type impl_table 6 "TickTock" [] (Cell (-1) (bits ++ [true; false]) (refs ++ [Cell (-1) [] []]))
+      = Ok (ex_TickTock, mkS [true; false] [Cell (-1) [] []])
+  | Err _ => False
+  end.
+Proof. split; [wt_tac|vm_compute; reflexivity]. Qed.
+
+(* ---- ExtraCurrencyCollection ---- *)
+Theorem C16_ExtraCurrencyCollection : forall v tb tr bits refs fuel,
+  wt spec_table spec_ExtraCurrencyCollection v -> encode spec_table spec_ExtraCurrencyCollection v = Ok (bits, refs) -> (8 <= fuel)%nat ->
+  run_type impl_table fuel "ExtraCurrencyCollection" [] (Cell (-1) (bits ++ tb) (refs ++ tr)) = Ok (v, mkS tb tr).
+Proof. exact (C16_generic "ExtraCurrencyCollection" spec_ExtraCurrencyCollection 8 eq_refl eq_refl). Qed.
+Print Assumptions C16_ExtraCurrencyCollection.
+
+Definition ex_ExtraCurrencyCollection : pv :=
+  PObj "ExtraCurrencyCollection" [("dict"%string, PDict [(3, PInt 300); (10, PInt 300); (11, PInt
+    300)])].
+Example C16_ExtraCurrencyCollection_ex :
+  wt spec_table spec_ExtraCurrencyCollection ex_ExtraCurrencyCollection /\
+  match encode spec_table spec_ExtraCurrencyCollection ex_ExtraCurrencyCollection with
+  | Ok (bits, refs) =>
+      run_type impl_table 8 "ExtraCurrencyCollection" [] (Cell (-1) (bits ++ [true; false]) (refs ++ [Cell (-1) [] []]))
+      = Ok (ex_ExtraCurrencyCollection, mkS [true; false] [Cell (-1) [] []])
+  | Err _ => False
+  end.
+Proof. split; [wt_tac|vm_compute; reflexivity]. Qed.
+
+(* ---- CurrencyCollection ---- *)
+Theorem C16_CurrencyCollection : forall v tb tr bits refs fuel,
+  wt spec_table spec_CurrencyCollection v -> encode spec_table spec_CurrencyCollection v = Ok (bits, refs) -> (14 <= fuel)%nat ->
+  run_type impl_table fuel "CurrencyCollection" [] (Cell (-1) (bits ++ tb) (refs ++ tr)) = Ok (v, mkS tb tr).
+Proof. exact (C16_generic "CurrencyCollection" spec_CurrencyCollection 14 eq_refl eq_refl). Qed.
+Print Assumptions C16_CurrencyCollection.
+
+Definition ex_CurrencyCollection : pv :=
+  PObj "CurrencyCollection" [("grams"%string, PInt 1000000007); ("other"%string, PObj
+    "ExtraCurrencyCollection" [("dict"%string, PDict [(3, PInt 300); (10, PInt 300); (11, PInt 300)])])].
+Example C16_CurrencyCollection_ex :
+  wt spec_table spec_CurrencyCollection ex_CurrencyCollection /\
+  match encode spec_table spec_CurrencyCollection ex_CurrencyCollection with
+  | Ok (bits, refs) =>
+      run_type impl_table 14 "CurrencyCollection" [] (Cell (-1) (bits ++ [true; false]) (refs ++ [Cell (-1) [] []]))
+      = Ok (ex_CurrencyCollection, mkS [true; false] [Cell (-1) [] []])
+  | Err _ => False
+  end.
+Proof. split; [wt_tac|vm_compute; reflexivity]. Qed.
+
+(* ---- StorageUsed ---- *)
+Theorem C16_StorageUsed : forall v tb tr bits refs fuel,
+  wt spec_table spec_StorageUsed v -> encode spec_table spec_StorageUsed v = Ok (bits, refs) -> (7 <= fuel)%nat ->
+  run_type impl_table fuel "StorageUsed" [] (Cell (-1) (bits ++ tb) (refs ++ tr)) = Ok (v, mkS tb tr).
+Proof. exact (C16_generic "StorageUsed" spec_StorageUsed 7 eq_refl eq_refl). Qed.
+Print Assumptions C16_StorageUsed.
+
+Definition ex_StorageUsed : pv :=
+  PObj "StorageUsed" [("bits"%string, PInt 300); ("cells"%string, PInt 300); ("public_cells"%string,
+    PInt 300)].
+Example C16_StorageUsed_ex :
+  wt spec_table spec_StorageUsed ex_StorageUsed /\
+  match encode spec_table spec_StorageUsed ex_StorageUsed with
+  | Ok (bits, refs) =>
+      run_type impl_table 7 "StorageUsed" [] (Cell (-1) (bits ++ [true; false]) (refs ++ [Cell (-1) [] []]))
+      = Ok (ex_StorageUsed, mkS [true; false] [Cell (-1) [] []])
+  | Err _ => False
+  end.
+Proof. split; [wt_tac|vm_compute; reflexivity]. Qed.
+
+(* ---- StorageUsedShort ---- *)
+Theorem C16_StorageUsedShort : forall v tb tr bits refs fuel,
+  wt spec_table spec_StorageUsedShort v -> encode spec_table spec_StorageUsedShort v = Ok (bits, refs) -> (6 <= fuel)%nat ->
+  run_type impl_table fuel "StorageUsedShort" [] (Cell (-1) (bits ++ tb) (refs ++ tr)) = Ok (v, mkS tb tr).
+Proof. exact (C16_generic "StorageUsedShort" spec_StorageUsedShort 6 eq_refl eq_refl). Qed.
+Print Assumptions C16_StorageUsedShort.
+
+Definition ex_StorageUsedShort : pv :=
+  PObj "StorageUsedShort" [("bits"%string, PInt 300); ("cells"%string, PInt 300)].
+Example C16_StorageUsedShort_ex :
+  wt spec_table spec_StorageUsedShort ex_StorageUsedShort /\
+  match encode spec_table spec_StorageUsedShort ex_StorageUsedShort with
+  | Ok (bits, refs) =>
+      run_type impl_table 6 "StorageUsedShort" [] (Cell (-1) (bits ++ [true; false]) (refs ++ [Cell (-1) [] []]))
+      = Ok (ex_StorageUsedShort, mkS [true; false] [Cell (-1) [] []])
+  | Err _ => False
+  end.
+Proof. split; [wt_tac|vm_compute; reflexivity]. Qed.
+
+(* ---- StorageInfo ---- *)
+Theorem C16_StorageInfo : forall v tb tr bits refs fuel,
+  wt spec_table spec_StorageInfo v -> encode spec_table spec_StorageInfo v = Ok (bits, refs) -> (16 <= fuel)%nat ->
+  run_type impl_table fuel "StorageInfo" [] (Cell (-1) (bits ++ tb) (refs ++ tr)) = Ok (v, mkS tb tr).
+Proof. exact (C16_generic "StorageInfo" spec_StorageInfo 16 eq_refl eq_refl). Qed.
+Print Assumptions C16_StorageInfo.
+
+Definition ex_StorageInfo : pv :=
+  PObj "StorageInfo" [("due_payment"%string, PInt 1000000007); ("last_paid"%string, PInt 954413);
+    ("used"%string, PObj "StorageUsed" [("bits"%string, PInt 300); ("cells"%string, PInt 300);
+    ("public_cells"%string, PInt 300)])].
+Example C16_StorageInfo_ex :
+  wt spec_table spec_StorageInfo ex_StorageInfo /\
+  match encode spec_table spec_StorageInfo ex_StorageInfo with
+  | Ok (bits, refs) =>
+      run_type impl_table 16 "StorageInfo" [] (Cell (-1) (bits ++ [true; false]) (refs ++ [Cell (-1) [] []]))
+      = Ok (ex_StorageInfo, mkS [true; false] [Cell (-1) [] []])
+  | Err _ => False
+  end.
+Proof. split; [wt_tac|vm_compute; reflexivity]. Qed.
+
+(* ---- TrStoragePhase ---- *)
+Theorem C16_TrStoragePhase : forall v tb tr bits refs fuel,
+  wt spec_table spec_TrStoragePhase v -> encode spec_table spec_TrStoragePhase v = Ok (bits, refs) -> (17 <= fuel)%nat ->
+  run_type impl_table fuel "TrStoragePhase" [] (Cell (-1) (bits ++ tb) (refs ++ tr)) = Ok (v, mkS tb tr).
+Proof. exact (C16_generic "TrStoragePhase" spec_TrStoragePhase 17 eq_refl eq_refl). Qed.
+Print Assumptions C16_TrStoragePhase.
+
+Definition ex_TrStoragePhase : pv :=
+  PObj "TrStoragePhase" [("status_change"%string, PObj "AccStatusChange" [("type_"%string, PStr
+    "deleted")]); ("storage_fees_collected"%string, PInt 1000000007); ("storage_fees_due"%string, PInt
+    1000000007)].
+Example C16_TrStoragePhase_ex :
+  wt spec_table spec_TrStoragePhase ex_TrStoragePhase /\
+  match encode spec_table spec_TrStoragePhase ex_TrStoragePhase with
+  | Ok (bits, refs) =>
+      run_type impl_table 17 "TrStoragePhase" [] (Cell (-1) (bits ++ [true; false]) (refs ++ [Cell (-1) [] []]))
+      = Ok (ex_TrStoragePhase, mkS [true; false] [Cell (-1) [] []])
+  | Err _ => False
+  end.
+Proof. split; [wt_tac|vm_compute; reflexivity]. Qed.
+
+(* ---- TrCreditPhase ---- *)
+Theorem C16_TrCreditPhase : forall v tb tr bits refs fuel,
+  wt spec_table spec_TrCreditPhase v -> encode spec_table spec_TrCreditPhase v = Ok (bits, refs) -> (22 <= fuel)%nat ->
+  run_type impl_table fuel "TrCreditPhase" [] (Cell (-1) (bits ++ tb) (refs ++ tr)) = Ok (v, mkS tb tr).
+Proof. exact (C16_generic "TrCreditPhase" spec_TrCreditPhase 22 eq_refl eq_refl). Qed.
+Print Assumptions C16_TrCreditPhase.
+
+Definition ex_TrCreditPhase : pv :=
+  PObj "TrCreditPhase" [("credit"%string, PObj "CurrencyCollection" [("grams"%string, PInt 1000000007);
+    ("other"%string, PObj "ExtraCurrencyCollection" [("dict"%string, PDict [(3, PInt 300); (10, PInt
+    300); (11, PInt 300)])])]); ("due_fees_collected"%string, PInt 1000000007)].
+Example C16_TrCreditPhase_ex :
+  wt spec_table spec_TrCreditPhase ex_TrCreditPhase /\
+  match encode spec_table spec_TrCreditPhase ex_TrCreditPhase with
+  | Ok (bits, refs) =>
+      run_type impl_table 22 "TrCreditPhase" [] (Cell (-1) (bits ++ [true; false]) (refs ++ [Cell (-1) [] []]))
+      = Ok (ex_TrCreditPhase, mkS [true; false] [Cell (-1) [] []])
+  | Err _ => False
+  end.
+Proof. split; [wt_tac|vm_compute; reflexivity]. Qed.
+
+(* ---- TrComputePhase ---- *)
+Theorem C16_TrComputePhase : forall v tb tr bits refs fuel,
+  wt spec_table spec_TrComputePhase v -> encode spec_table spec_TrComputePhase v = Ok (bits, refs) -> (24 <= fuel)%nat ->
+  run_type impl_table fuel "TrComputePhase" [] (Cell (-1) (bits ++ tb) (refs ++ tr)) = Ok (v, mkS tb tr).
+Proof. exact (C16_generic "TrComputePhase" spec_TrComputePhase 24 eq_refl eq_refl). Qed.
+Print Assumptions C16_TrComputePhase.
+
+Definition ex_TrComputePhase : pv :=
+  PObj "TrComputePhase" [("account_activated"%string, PBool true); ("exit_arg"%string, PInt (-3));
+    ("exit_code"%string, PInt (-3)); ("gas_credit"%string, PInt 300); ("gas_fees"%string, PInt
+    1000000007); ("gas_limit"%string, PInt 300); ("gas_used"%string, PInt 300); ("mode"%string, PInt
+    (-3)); ("msg_state_used"%string, PBool true); ("success"%string, PBool true); ("type_"%string, PStr
+    "vm"); ("vm_final_state_hash"%string, PBytes [7%N; 14%N; 21%N; 28%N; 35%N; 42%N; 49%N; 56%N; 63%N;
+    70%N; 77%N; 84%N; 91%N; 98%N; 105%N; 112%N; 119%N; 126%N; 133%N; 140%N; 147%N; 154%N; 161%N; 168%N;
+    175%N; 182%N; 189%N; 196%N; 203%N; 210%N; 217%N; 224%N]); ("vm_init_state_hash"%string, PBytes [7%N;
+    14%N; 21%N; 28%N; 35%N; 42%N; 49%N; 56%N; 63%N; 70%N; 77%N; 84%N; 91%N; 98%N; 105%N; 112%N; 119%N;
+    126%N; 133%N; 140%N; 147%N; 154%N; 161%N; 168%N; 175%N; 182%N; 189%N; 196%N; 203%N; 210%N; 217%N;
+    224%N]); ("vm_steps"%string, PInt 954413)].
+Example C16_TrComputePhase_ex :
+  wt spec_table spec_TrComputePhase ex_TrComputePhase /\
+  match encode spec_table spec_TrComputePhase ex_TrComputePhase with
+  | Ok (bits, refs) =>
+      run_type impl_table 24 "TrComputePhase" [] (Cell (-1) (bits ++ [true; false]) (refs ++ [Cell (-1) [] []]))
+      = Ok (ex_TrComputePhase, mkS [true; false] [Cell (-1) [] []])
+  | Err _ => False
+  end.
+Proof. split; [wt_tac|vm_compute; reflexivity]. Qed.
+
+(* ---- TrBouncePhase ---- *)
+Theorem C16_TrBouncePhase : forall v tb tr bits refs fuel,
+  wt spec_table spec_TrBouncePhase v -> encode spec_table spec_TrBouncePhase v = Ok (bits, refs) -> (17 <= fuel)%nat ->
+  run_type impl_table fuel "TrBouncePhase" [] (Cell (-1) (bits ++ tb) (refs ++ tr)) = Ok (v, mkS tb tr).
+Proof. exact (C16_generic "TrBouncePhase" spec_TrBouncePhase 17 eq_refl eq_refl). Qed.
+Print Assumptions C16_TrBouncePhase.
+
+Definition ex_TrBouncePhase : pv :=
+  PObj "TrBouncePhase" [("fwd_fees"%string, PInt 1000000007); ("msg_fees"%string, PInt 1000000007);
+    ("msg_size"%string, PObj "StorageUsedShort" [("bits"%string, PInt 300); ("cells"%string, PInt
+    300)]); ("type_"%string, PStr "ok")].
+Example C16_TrBouncePhase_ex :
+  wt spec_table spec_TrBouncePhase ex_TrBouncePhase /\
+  match encode spec_table spec_TrBouncePhase ex_TrBouncePhase with
+  | Ok (bits, refs) =>
+      run_type impl_table 17 "TrBouncePhase" [] (Cell (-1) (bits ++ [true; false]) (refs ++ [Cell (-1) [] []]))
+      = Ok (ex_TrBouncePhase, mkS [true; false] [Cell (-1) [] []])
+  | Err _ => False
+  end.
+Proof. split; [wt_tac|vm_compute; reflexivity]. Qed.
+
+(* ---- TrActionPhase ---- *)
+Theorem C16_TrActionPhase : forall v tb tr bits refs fuel,
+  wt spec_table spec_TrActionPhase v -> encode spec_table spec_TrActionPhase v = Ok (bits, refs) -> (38 <= fuel)%nat ->
+  run_type impl_table fuel "TrActionPhase" [] (Cell (-1) (bits ++ tb) (refs ++ tr)) = Ok (v, mkS tb tr).
+Proof. exact (C16_generic "TrActionPhase" spec_TrActionPhase 38 eq_refl eq_refl). Qed.
+Print Assumptions C16_TrActionPhase.
+
+Definition ex_TrActionPhase : pv :=
+  PObj "TrActionPhase" [("action_list_hash"%string, PBytes [7%N; 14%N; 21%N; 28%N; 35%N; 42%N; 49%N;
+    56%N; 63%N; 70%N; 77%N; 84%N; 91%N; 98%N; 105%N; 112%N; 119%N; 126%N; 133%N; 140%N; 147%N; 154%N;
+    161%N; 168%N; 175%N; 182%N; 189%N; 196%N; 203%N; 210%N; 217%N; 224%N]); ("msgs_created"%string, PInt
+    65535); ("no_funds"%string, PBool true); ("result_arg"%string, PInt (-3)); ("result_code"%string,
+    PInt (-3)); ("skipped_actions"%string, PInt 65535); ("spec_actions"%string, PInt 65535);
+    ("status_change"%string, PObj "AccStatusChange" [("type_"%string, PStr "deleted")]);
+    ("success"%string, PBool true); ("tot_actions"%string, PInt 65535); ("tot_msg_size"%string, PObj
+    "StorageUsedShort" [("bits"%string, PInt 300); ("cells"%string, PInt 300)]);
+    ("total_action_fees"%string, PInt 1000000007); ("total_fwd_fees"%string, PInt 1000000007);
+    ("valid"%string, PBool true)].
+Example C16_TrActionPhase_ex :
+  wt spec_table spec_TrActionPhase ex_TrActionPhase /\
+  match encode spec_table spec_TrActionPhase ex_TrActionPhase with
+  | Ok (bits, refs) =>
+      run_type impl_table 38 "TrActionPhase" [] (Cell (-1) (bits ++ [true; false]) (refs ++ [Cell (-1) [] []]))
+      = Ok (ex_TrActionPhase, mkS [true; false] [Cell (-1) [] []])
+  | Err _ => False
+  end.
+Proof. split; [wt_tac|vm_compute; reflexivity]. Qed.
+
+(* ---- ExtBlkRef ---- *)
+Theorem C16_ExtBlkRef : forall v tb tr bits refs fuel,
+  wt spec_table spec_ExtBlkRef v -> encode spec_table spec_ExtBlkRef v = Ok (bits, refs) -> (8 <= fuel)%nat ->
+  run_type impl_table fuel "ExtBlkRef" [] (Cell (-1) (bits ++ tb) (refs ++ tr)) = Ok (v, mkS tb tr).
+Proof. exact (C16_generic "ExtBlkRef" spec_ExtBlkRef 8 eq_refl eq_refl). Qed.
+Print Assumptions C16_ExtBlkRef.
+
+Definition ex_ExtBlkRef : pv :=
+  PObj "ExtBlkRef" [("end_lt"%string, PInt 350686); ("file_hash"%string, PBytes [7%N; 14%N; 21%N; 28%N;
+    35%N; 42%N; 49%N; 56%N; 63%N; 70%N; 77%N; 84%N; 91%N; 98%N; 105%N; 112%N; 119%N; 126%N; 133%N;
+    140%N; 147%N; 154%N; 161%N; 168%N; 175%N; 182%N; 189%N; 196%N; 203%N; 210%N; 217%N; 224%N]);
+    ("root_hash"%string, PBytes [7%N; 14%N; 21%N; 28%N; 35%N; 42%N; 49%N; 56%N; 63%N; 70%N; 77%N; 84%N;
+    91%N; 98%N; 105%N; 112%N; 119%N; 126%N; 133%N; 140%N; 147%N; 154%N; 161%N; 168%N; 175%N; 182%N;
+    189%N; 196%N; 203%N; 210%N; 217%N; 224%N]); ("seqno"%string, PInt 954413)].
+Example C16_ExtBlkRef_ex :
+  wt spec_table spec_ExtBlkRef ex_ExtBlkRef /\
+  match encode spec_table spec_ExtBlkRef ex_ExtBlkRef with
+  | Ok (bits, refs) =>
+      run_type impl_table 8 "ExtBlkRef" [] (Cell (-1) (bits ++ [true; false]) (refs ++ [Cell (-1) [] []]))
+      = Ok (ex_ExtBlkRef, mkS [true; false] [Cell (-1) [] []])
+  | Err _ => False
+  end.
+Proof. split; [wt_tac|vm_compute; reflexivity]. Qed.
+
+(* ---- BlkMasterInfo ---- *)
+Theorem C16_BlkMasterInfo : forall v tb tr bits refs fuel,
+  wt spec_table spec_BlkMasterInfo v -> encode spec_table spec_BlkMasterInfo v = Ok (bits, refs) -> (13 <= fuel)%nat ->
+  run_type impl_table fuel "BlkMasterInfo" [] (Cell (-1) (bits ++ tb) (refs ++ tr)) = Ok (v, mkS tb tr).
+Proof. exact (C16_generic "BlkMasterInfo" spec_BlkMasterInfo 13 eq_refl eq_refl). Qed.
+Print Assumptions C16_BlkMasterInfo.
+
+Definition ex_BlkMasterInfo : pv :=
+  PObj "BlkMasterInfo" [("master"%string, PObj "ExtBlkRef" [("end_lt"%string, PInt 350686);
+    ("file_hash"%string, PBytes [7%N; 14%N; 21%N; 28%N; 35%N; 42%N; 49%N; 56%N; 63%N; 70%N; 77%N; 84%N;
+    91%N; 98%N; 105%N; 112%N; 119%N; 126%N; 133%N; 140%N; 147%N; 154%N; 161%N; 168%N; 175%N; 182%N;
+    189%N; 196%N; 203%N; 210%N; 217%N; 224%N]); ("root_hash"%string, PBytes [7%N; 14%N; 21%N; 28%N;
+    35%N; 42%N; 49%N; 56%N; 63%N; 70%N; 77%N; 84%N; 91%N; 98%N; 105%N; 112%N; 119%N; 126%N; 133%N;
+    140%N; 147%N; 154%N; 161%N; 168%N; 175%N; 182%N; 189%N; 196%N; 203%N; 210%N; 217%N; 224%N]);
+    ("seqno"%string, PInt 954413)])].
+Example C16_BlkMasterInfo_ex :
+  wt spec_table spec_BlkMasterInfo ex_BlkMasterInfo /\
+  match encode spec_table spec_BlkMasterInfo ex_BlkMasterInfo with
+  | Ok (bits, refs) =>
+      run_type impl_table 13 "BlkMasterInfo" [] (Cell (-1) (bits ++ [true; false]) (refs ++ [Cell (-1) [] []]))
+      = Ok (ex_BlkMasterInfo, mkS [true; false] [Cell (-1) [] []])
+  | Err _ => False
+  end.
+Proof. split; [wt_tac|vm_compute; reflexivity]. Qed.
+
+(* ---- GlobalVersion ---- *)
+Theorem C16_GlobalVersion : forall v tb tr bits refs fuel,
+  wt spec_table spec_GlobalVersion v -> encode spec_table spec_GlobalVersion v = Ok (bits, refs) -> (22 <= fuel)%nat ->
+  run_type impl_table fuel "GlobalVersion" [] (Cell (-1) (bits ++ tb) (refs ++ tr)) = Ok (v, mkS tb tr).
+Proof. exact (C16_generic "GlobalVersion" spec_GlobalVersion 22 eq_refl eq_refl). Qed.
+Print Assumptions C16_GlobalVersion.
+
+Definition ex_GlobalVersion : pv :=
+  PObj "GlobalVersion" [("capabilities"%string, PInt 350686); ("version"%string, PInt 954413)].
+Example C16_GlobalVersion_ex :
+  wt spec_table spec_GlobalVersion ex_GlobalVersion /\
+  match encode spec_table spec_GlobalVersion ex_GlobalVersion with
+  | Ok (bits, refs) =>
+      run_type impl_table 22 "GlobalVersion" [] (Cell (-1) (bits ++ [true; false]) (refs ++ [Cell (-1) [] []]))
+      = Ok (ex_GlobalVersion, mkS [true; false] [Cell (-1) [] []])
+  | Err _ => False
+  end.
+Proof. split; [wt_tac|vm_compute; reflexivity]. Qed.
+
+(* ---- ShardIdent ---- *)
+Theorem C16_ShardIdent : forall v tb tr bits refs fuel,
+  wt spec_table spec_ShardIdent v -> encode spec_table spec_ShardIdent v = Ok (bits, refs) -> (11 <= fuel)%nat ->
+  run_type impl_table fuel "ShardIdent" [] (Cell (-1) (bits ++ tb) (refs ++ tr)) = Ok (v, mkS tb tr).
+Proof. exact (C16_generic "ShardIdent" spec_ShardIdent 11 eq_refl eq_refl). Qed.
+Print Assumptions C16_ShardIdent.
+
+Definition ex_ShardIdent : pv :=
+  PObj "ShardIdent" [("shard_pfx_bits"%string, PInt 60); ("shard_prefix"%string, PInt 350686);
+    ("workchain_id"%string, PInt (-3))].
+Example C16_ShardIdent_ex :
+  wt spec_table spec_ShardIdent ex_ShardIdent /\
+  match encode spec_table spec_ShardIdent ex_ShardIdent with
+  | Ok (bits, refs) =>
+      run_type impl_table 11 "ShardIdent" [] (Cell (-1) (bits ++ [true; false]) (refs ++ [Cell (-1) [] []]))
+      = Ok (ex_ShardIdent, mkS [true; false] [Cell (-1) [] []])
+  | Err _ => False
+  end.
+Proof. split; [wt_tac|vm_compute; reflexivity]. Qed.
+
+(* ---- FutureSplitMerge ---- *)
+Theorem C16_FutureSplitMerge : forall v tb tr bits refs fuel,
+  wt spec_table spec_FutureSplitMerge v -> encode spec_table spec_FutureSplitMerge v = Ok (bits, refs) -> (10 <= fuel)%nat ->
+  run_type impl_table fuel "FutureSplitMerge" [] (Cell (-1) (bits ++ tb) (refs ++ tr)) = Ok (v, mkS tb tr).
+Proof. exact (C16_generic "FutureSplitMerge" spec_FutureSplitMerge 10 eq_refl eq_refl). Qed.
+Print Assumptions C16_FutureSplitMerge.
+
+Definition ex_FutureSplitMerge : pv :=
+  PObj "FutureSplitMerge" [("interval"%string, PInt 954413); ("merge_utime"%string, PInt 954413);
+    ("type_"%string, PStr "fsm_merge")].
+Example C16_FutureSplitMerge_ex :
+  wt spec_table spec_FutureSplitMerge ex_FutureSplitMerge /\
+  match encode spec_table spec_FutureSplitMerge ex_FutureSplitMerge with
+  | Ok (bits, refs) =>
+      run_type impl_table 10 "FutureSplitMerge" [] (Cell (-1) (bits ++ [true; false]) (refs ++ [Cell (-1) [] []]))
+      = Ok (ex_FutureSplitMerge, mkS [true; false] [Cell (-1) [] []])
+  | Err _ => False
+  end.
+Proof. split; [wt_tac|vm_compute; reflexivity]. Qed.
+
+(* ---- SplitMergeInfo ---- *)
+Theorem C16_SplitMergeInfo : forall v tb tr bits refs fuel,
+  wt spec_table spec_SplitMergeInfo v -> encode spec_table spec_SplitMergeInfo v = Ok (bits, refs) -> (8 <= fuel)%nat ->
+  run_type impl_table fuel "SplitMergeInfo" [] (Cell (-1) (bits ++ tb) (refs ++ tr)) = Ok (v, mkS tb tr).
+Proof. exact (C16_generic "SplitMergeInfo" spec_SplitMergeInfo 8 eq_refl eq_refl). Qed.
+Print Assumptions C16_SplitMergeInfo.
+
+Definition ex_SplitMergeInfo : pv :=
+  PObj "SplitMergeInfo" [("acc_split_depth"%string, PInt 63); ("cur_shard_pfx_len"%string, PInt 63);
+    ("sibling_addr"%string, PHex [7%N; 14%N; 21%N; 28%N; 35%N; 42%N; 49%N; 56%N; 63%N; 70%N; 77%N; 84%N;
+    91%N; 98%N; 105%N; 112%N; 119%N; 126%N; 133%N; 140%N; 147%N; 154%N; 161%N; 168%N; 175%N; 182%N;
+    189%N; 196%N; 203%N; 210%N; 217%N; 224%N]); ("this_addr"%string, PHex [7%N; 14%N; 21%N; 28%N; 35%N;
+    42%N; 49%N; 56%N; 63%N; 70%N; 77%N; 84%N; 91%N; 98%N; 105%N; 112%N; 119%N; 126%N; 133%N; 140%N;
+    147%N; 154%N; 161%N; 168%N; 175%N; 182%N; 189%N; 196%N; 203%N; 210%N; 217%N; 224%N])].
+Example C16_SplitMergeInfo_ex :
+  wt spec_table spec_SplitMergeInfo ex_SplitMergeInfo /\
+  match encode spec_table spec_SplitMergeInfo ex_SplitMergeInfo with
+  | Ok (bits, refs) =>
+      run_type impl_table 8 "SplitMergeInfo" [] (Cell (-1) (bits ++ [true; false]) (refs ++ [Cell (-1) [] []]))
+      = Ok (ex_SplitMergeInfo, mkS [true; false] [Cell (-1) [] []])
+  | Err _ => False
+  end.
+Proof. split; [wt_tac|vm_compute; reflexivity]. Qed.
+
+(* ---- HashUpdate ---- *)
+Theorem C16_HashUpdate : forall v tb tr bits refs fuel,
+  wt spec_table spec_HashUpdate v -> encode spec_table spec_HashUpdate v = Ok (bits, refs) -> (22 <= fuel)%nat ->
+  run_type impl_table fuel "HashUpdate" [] (Cell (-1) (bits ++ tb) (refs ++ tr)) = Ok (v, mkS tb tr).
+Proof. exact (C16_generic "HashUpdate" spec_HashUpdate 22 eq_refl eq_refl). Qed.
+Print Assumptions C16_HashUpdate.
+
+Definition ex_HashUpdate : pv :=
+  PObj "HashUpdate" [("new_hash"%string, PBytes [7%N; 14%N; 21%N; 28%N; 35%N; 42%N; 49%N; 56%N; 63%N;
+    70%N; 77%N; 84%N; 91%N; 98%N; 105%N; 112%N; 119%N; 126%N; 133%N; 140%N; 147%N; 154%N; 161%N; 168%N;
+    175%N; 182%N; 189%N; 196%N; 203%N; 210%N; 217%N; 224%N]); ("old_hash"%string, PBytes [7%N; 14%N;
+    21%N; 28%N; 35%N; 42%N; 49%N; 56%N; 63%N; 70%N; 77%N; 84%N; 91%N; 98%N; 105%N; 112%N; 119%N; 126%N;
+    133%N; 140%N; 147%N; 154%N; 161%N; 168%N; 175%N; 182%N; 189%N; 196%N; 203%N; 210%N; 217%N; 224%N])].
+Example C16_HashUpdate_ex :
+  wt spec_table spec_HashUpdate ex_HashUpdate /\
+  match encode spec_table spec_HashUpdate ex_HashUpdate with
+  | Ok (bits, refs) =>
+      run_type impl_table 22 "HashUpdate" [] (Cell (-1) (bits ++ [true; false]) (refs ++ [Cell (-1) [] []]))
+      = Ok (ex_HashUpdate, mkS [true; false] [Cell (-1) [] []])
+  | Err _ => False
+  end.
+Proof. split; [wt_tac|vm_compute; reflexivity]. Qed.
+
+(* ---- IntermediateAddress ---- *)
+Theorem C16_IntermediateAddress : forall v tb tr bits refs fuel,
+  wt spec_table spec_IntermediateAddress v -> encode spec_table spec_IntermediateAddress v = Ok (bits, refs) -> (10 <= fuel)%nat ->
+  run_type impl_table fuel "IntermediateAddress" [] (Cell (-1) (bits ++ tb) (refs ++ tr)) = Ok (v, mkS tb tr).
+Proof. exact (C16_generic "IntermediateAddress" spec_IntermediateAddress 10 eq_refl eq_refl). Qed.
+Print Assumptions C16_IntermediateAddress.
+
+Definition ex_IntermediateAddress : pv :=
+  PObj "IntermediateAddress" [("addr_pfx"%string, PInt 350686); ("type_"%string, PStr
+    "interm_addr_ext"); ("use_dest_bits"%string, PNone); ("workchain_id"%string, PInt (-3))].
+Example C16_IntermediateAddress_ex :
+  wt spec_table spec_IntermediateAddress ex_IntermediateAddress /\
+  match encode spec_table spec_IntermediateAddress ex_IntermediateAddress with
+  | Ok (bits, refs) =>
+      run_type impl_table 10 "IntermediateAddress" [] (Cell (-1) (bits ++ [true; false]) (refs ++ [Cell (-1) [] []]))
+      = Ok (ex_IntermediateAddress, mkS [true; false] [Cell (-1) [] []])
+  | Err _ => False
+  end.
+Proof. split; [wt_tac|vm_compute; reflexivity]. Qed.
+
+(* ---- MsgMetadata ---- *)
+Theorem C16_MsgMetadata : forall v tb tr bits refs fuel,
+  wt spec_table spec_MsgMetadata v -> encode spec_table spec_MsgMetadata v = Ok (bits, refs) -> (15 <= fuel)%nat ->
+  run_type impl_table fuel "MsgMetadata" [] (Cell (-1) (bits ++ tb) (refs ++ tr)) = Ok (v, mkS tb tr).
+Proof. exact (C16_generic "MsgMetadata" spec_MsgMetadata 15 eq_refl eq_refl). Qed.
+Print Assumptions C16_MsgMetadata.
+
+Definition ex_MsgMetadata : pv :=
+  PObj "MsgMetadata" [("depth"%string, PInt 954413); ("initiator_addr"%string, PAddr (AddrStd (Some (3,
+    5)) (-1) [7%N; 14%N; 21%N; 28%N; 35%N; 42%N; 49%N; 56%N; 63%N; 70%N; 77%N; 84%N; 91%N; 98%N; 105%N;
+    112%N; 119%N; 126%N; 133%N; 140%N; 147%N; 154%N; 161%N; 168%N; 175%N; 182%N; 189%N; 196%N; 203%N;
+    210%N; 217%N; 224%N])); ("initiator_lt"%string, PInt 350686)].
+Example C16_MsgMetadata_ex :
+  wt spec_table spec_MsgMetadata ex_MsgMetadata /\
+  match encode spec_table spec_MsgMetadata ex_MsgMetadata with
+  | Ok (bits, refs) =>
+      run_type impl_table 15 "MsgMetadata" [] (Cell (-1) (bits ++ [true; false]) (refs ++ [Cell (-1) [] []]))
+      = Ok (ex_MsgMetadata, mkS [true; false] [Cell (-1) [] []])
+  | Err _ => False
+  end.
+Proof. split; [wt_tac|vm_compute; reflexivity]. Qed.
+
+(* ---- InternalMsgInfo ---- *)
+Theorem C16_InternalMsgInfo : forall v tb tr bits refs fuel,
+  wt spec_table spec_InternalMsgInfo v -> encode spec_table spec_InternalMsgInfo v = Ok (bits, refs) -> (30 <= fuel)%nat ->
+  run_type impl_table fuel "InternalMsgInfo" [] (Cell (-1) (bits ++ tb) (refs ++ tr)) = Ok (v, mkS tb tr).
+Proof. exact (C16_generic "InternalMsgInfo" spec_InternalMsgInfo 30 eq_refl eq_refl). Qed.
+Print Assumptions C16_InternalMsgInfo.
+
+Definition ex_InternalMsgInfo : pv :=
+  PObj "InternalMsgInfo" [("bounce"%string, PBool true); ("bounced"%string, PBool true);
+    ("created_at"%string, PInt 954413); ("created_lt"%string, PInt 350686); ("dest"%string, PAddr
+    (AddrStd (Some (3, 5)) (-1) [7%N; 14%N; 21%N; 28%N; 35%N; 42%N; 49%N; 56%N; 63%N; 70%N; 77%N; 84%N;
+    91%N; 98%N; 105%N; 112%N; 119%N; 126%N; 133%N; 140%N; 147%N; 154%N; 161%N; 168%N; 175%N; 182%N;
+    189%N; 196%N; 203%N; 210%N; 217%N; 224%N])); ("fwd_fee"%string, PInt 1000000007);
+    ("ihr_disabled"%string, PBool true); ("ihr_fee"%string, PInt 1000000007); ("src"%string, PAddr
+    (AddrStd (Some (3, 5)) (-1) [7%N; 14%N; 21%N; 28%N; 35%N; 42%N; 49%N; 56%N; 63%N; 70%N; 77%N; 84%N;
+    91%N; 98%N; 105%N; 112%N; 119%N; 126%N; 133%N; 140%N; 147%N; 154%N; 161%N; 168%N; 175%N; 182%N;
+    189%N; 196%N; 203%N; 210%N; 217%N; 224%N])); ("value"%string, PObj "CurrencyCollection"
+    [("grams"%string, PInt 1000000007); ("other"%string, PObj "ExtraCurrencyCollection" [("dict"%string,
+    PDict [(3, PInt 300); (10, PInt 300); (11, PInt 300)])])])].
+Example C16_InternalMsgInfo_ex :
+  wt spec_table spec_InternalMsgInfo ex_InternalMsgInfo /\
+  match encode spec_table spec_InternalMsgInfo ex_InternalMsgInfo with
+  | Ok (bits, refs) =>
+      run_type impl_table 30 "InternalMsgInfo" [] (Cell (-1) (bits ++ [true; false]) (refs ++ [Cell (-1) [] []]))
+      = Ok (ex_InternalMsgInfo, mkS [true; false] [Cell (-1) [] []])
+  | Err _ => False
+  end.
+Proof. split; [wt_tac|vm_compute; reflexivity]. Qed.
+
+(* ---- ExternalMsgInfo ---- *)
+Theorem C16_ExternalMsgInfo : forall v tb tr bits refs fuel,
+  wt spec_table spec_ExternalMsgInfo v -> encode spec_table spec_ExternalMsgInfo v = Ok (bits, refs) -> (11 <= fuel)%nat ->
+  run_type impl_table fuel "ExternalMsgInfo" [] (Cell (-1) (bits ++ tb) (refs ++ tr)) = Ok (v, mkS tb tr).
+Proof. exact (C16_generic "ExternalMsgInfo" spec_ExternalMsgInfo 11 eq_refl eq_refl). Qed.
+Print Assumptions C16_ExternalMsgInfo.
+
+Definition ex_ExternalMsgInfo : pv :=
+  PObj "ExternalMsgInfo" [("dest"%string, PAddr (AddrStd (Some (3, 5)) (-1) [7%N; 14%N; 21%N; 28%N;
+    35%N; 42%N; 49%N; 56%N; 63%N; 70%N; 77%N; 84%N; 91%N; 98%N; 105%N; 112%N; 119%N; 126%N; 133%N;
+    140%N; 147%N; 154%N; 161%N; 168%N; 175%N; 182%N; 189%N; 196%N; 203%N; 210%N; 217%N; 224%N]));
+    ("import_fee"%string, PInt 1000000007); ("src"%string, PAddr (AddrExt 5 9))].
+Example C16_ExternalMsgInfo_ex :
+  wt spec_table spec_ExternalMsgInfo ex_ExternalMsgInfo /\
+  match encode spec_table spec_ExternalMsgInfo ex_ExternalMsgInfo with
+  | Ok (bits, refs) =>
+      run_type impl_table 11 "ExternalMsgInfo" [] (Cell (-1) (bits ++ [true; false]) (refs ++ [Cell (-1) [] []]))
+      = Ok (ex_ExternalMsgInfo, mkS [true; false] [Cell (-1) [] []])
+  | Err _ => False
+  end.
+Proof. split; [wt_tac|vm_compute; reflexivity]. Qed.
+
+(* ---- ExternalOutMsgInfo ---- *)
+Theorem C16_ExternalOutMsgInfo : forall v tb tr bits refs fuel,
+  wt spec_table spec_ExternalOutMsgInfo v -> encode spec_table spec_ExternalOutMsgInfo v = Ok (bits, refs) -> (12 <= fuel)%nat ->
+  run_type impl_table fuel "ExternalOutMsgInfo" [] (Cell (-1) (bits ++ tb) (refs ++ tr)) = Ok (v, mkS tb tr).
+Proof. exact (C16_generic "ExternalOutMsgInfo" spec_ExternalOutMsgInfo 12 eq_refl eq_refl). Qed.
+Print Assumptions C16_ExternalOutMsgInfo.
+
+Definition ex_ExternalOutMsgInfo : pv :=
+  PObj "ExternalOutMsgInfo" [("created_at"%string, PInt 954413); ("created_lt"%string, PInt 350686);
+    ("dest"%string, PAddr (AddrExt 5 9)); ("src"%string, PAddr (AddrStd (Some (3, 5)) (-1) [7%N; 14%N;
+    21%N; 28%N; 35%N; 42%N; 49%N; 56%N; 63%N; 70%N; 77%N; 84%N; 91%N; 98%N; 105%N; 112%N; 119%N; 126%N;
+    133%N; 140%N; 147%N; 154%N; 161%N; 168%N; 175%N; 182%N; 189%N; 196%N; 203%N; 210%N; 217%N; 224%N]))].
+Example C16_ExternalOutMsgInfo_ex :
+  wt spec_table spec_ExternalOutMsgInfo ex_ExternalOutMsgInfo /\
+  match encode spec_table spec_ExternalOutMsgInfo ex_ExternalOutMsgInfo with
+  | Ok (bits, refs) =>
+      run_type impl_table 12 "ExternalOutMsgInfo" [] (Cell (-1) (bits ++ [true; false]) (refs ++ [Cell (-1) [] []]))
+      = Ok (ex_ExternalOutMsgInfo, mkS [true; false] [Cell (-1) [] []])
+  | Err _ => False
+  end.
+Proof. split; [wt_tac|vm_compute; reflexivity]. Qed.
+
+(* ---- StateInit ---- *)
+Theorem C16_StateInit : forall v tb tr bits refs fuel,
+  wt spec_table spec_StateInit v -> encode spec_table spec_StateInit v = Ok (bits, refs) -> (25 <= fuel)%nat ->
+  run_type impl_table fuel "StateInit" [] (Cell (-1) (bits ++ tb) (refs ++ tr)) = Ok (v, mkS tb tr).
+Proof. exact (C16_generic "StateInit" spec_StateInit 25 eq_refl eq_refl). Qed.
+Print Assumptions C16_StateInit.
+
+Definition ex_StateInit : pv :=
+  PObj "StateInit" [("code"%string, PCell (Cell (-1) [true; false; true] [])); ("data"%string, PCell
+    (Cell (-1) [true; false; true] [])); ("library"%string, PCell (Cell (-1) [true; false; true] []));
+    ("special"%string, PObj "TickTock" [("tick"%string, PBool true); ("tock"%string, PBool true)]);
+    ("split_depth"%string, PInt 31)].
+Example C16_StateInit_ex :
+  wt spec_table spec_StateInit ex_StateInit /\
+  match encode spec_table spec_StateInit ex_StateInit with
+  | Ok (bits, refs) =>
+      run_type impl_table 25 "StateInit" [] (Cell (-1) (bits ++ [true; false]) (refs ++ [Cell (-1) [] []]))
+      = Ok (ex_StateInit, mkS [true; false] [Cell (-1) [] []])
+  | Err _ => False
+  end.
+Proof. split; [wt_tac|vm_compute; reflexivity]. Qed.
+
+(* ---- SigPubKey ---- *)
+Theorem C16_SigPubKey : forall v tb tr bits refs fuel,
+  wt spec_table spec_SigPubKey v -> encode spec_table spec_SigPubKey v = Ok (bits, refs) -> (69 <= fuel)%nat ->
+  run_type impl_table fuel "SigPubKey" [] (Cell (-1) (bits ++ tb) (refs ++ tr)) = Ok (v, mkS tb tr).
+Proof. exact (C16_generic "SigPubKey" spec_SigPubKey 69 eq_refl eq_refl). Qed.
+Print Assumptions C16_SigPubKey.
+
+Definition ex_SigPubKey : pv :=
+  PObj "SigPubKey" [("pubkey"%string, PBytes [7%N; 14%N; 21%N; 28%N; 35%N; 42%N; 49%N; 56%N; 63%N; 70%N;
+    77%N; 84%N; 91%N; 98%N; 105%N; 112%N; 119%N; 126%N; 133%N; 140%N; 147%N; 154%N; 161%N; 168%N; 175%N;
+    182%N; 189%N; 196%N; 203%N; 210%N; 217%N; 224%N])].
+Example C16_SigPubKey_ex :
+  wt spec_table spec_SigPubKey ex_SigPubKey /\
+  match encode spec_table spec_SigPubKey ex_SigPubKey with
+  | Ok (bits, refs) =>
+      run_type impl_table 69 "SigPubKey" [] (Cell (-1) (bits ++ [true; false]) (refs ++ [Cell (-1) [] []]))
+      = Ok (ex_SigPubKey, mkS [true; false] [Cell (-1) [] []])
+  | Err _ => False
+  end.
+Proof. split; [wt_tac|vm_compute; reflexivity]. Qed.
+
+(* ---- CatchainConfig ---- *)
+Theorem C16_CatchainConfig : forall v tb tr bits refs fuel,
+  wt spec_table spec_CatchainConfig v -> encode spec_table spec_CatchainConfig v = Ok (bits, refs) -> (33 <= fuel)%nat ->
+  run_type impl_table fuel "CatchainConfig" [] (Cell (-1) (bits ++ tb) (refs ++ tr)) = Ok (v, mkS tb tr).
+Proof. exact (C16_generic "CatchainConfig" spec_CatchainConfig 33 eq_refl eq_refl). Qed.
+Print Assumptions C16_CatchainConfig.
+
+Definition ex_CatchainConfig : pv :=
+  PObj "CatchainConfig" [("mc_catchain_lifetime"%string, PInt 954413);
+    ("shard_catchain_lifetime"%string, PInt 954413); ("shard_validators_lifetime"%string, PInt 954413);
+    ("shard_validators_num"%string, PInt 954413); ("shuffle_mc_validators"%string, PBool true);
+    ("type_"%string, PStr "catchain_config_new")].
+Example C16_CatchainConfig_ex :
+  wt spec_table spec_CatchainConfig ex_CatchainConfig /\
+  match encode spec_table spec_CatchainConfig ex_CatchainConfig with
+  | Ok (bits, refs) =>
+      run_type impl_table 33 "CatchainConfig" [] (Cell (-1) (bits ++ [true; false]) (refs ++ [Cell (-1) [] []]))
+      = Ok (ex_CatchainConfig, mkS [true; false] [Cell (-1) [] []])
+  | Err _ => False
+  end.
+Proof. split; [wt_tac|vm_compute; reflexivity]. Qed.
+
+(* ---- ValidatorDescr ---- *)
+Theorem C16_ValidatorDescr : forall v tb tr bits refs fuel,
+  wt spec_table spec_ValidatorDescr v -> encode spec_table spec_ValidatorDescr v = Ok (bits, refs) -> (92 <= fuel)%nat ->
+  run_type impl_table fuel "ValidatorDescr" [] (Cell (-1) (bits ++ tb) (refs ++ tr)) = Ok (v, mkS tb tr).
+Proof. exact (C16_generic "ValidatorDescr" spec_ValidatorDescr 92 eq_refl eq_refl). Qed.
+Print Assumptions C16_ValidatorDescr.
+
+Definition ex_ValidatorDescr : pv :=
+  PObj "ValidatorDescr" [("adnl_addr"%string, PBytes [7%N; 14%N; 21%N; 28%N; 35%N; 42%N; 49%N; 56%N;
+    63%N; 70%N; 77%N; 84%N; 91%N; 98%N; 105%N; 112%N; 119%N; 126%N; 133%N; 140%N; 147%N; 154%N; 161%N;
+    168%N; 175%N; 182%N; 189%N; 196%N; 203%N; 210%N; 217%N; 224%N]); ("public_key"%string, PObj
+    "SigPubKey" [("pubkey"%string, PBytes [7%N; 14%N; 21%N; 28%N; 35%N; 42%N; 49%N; 56%N; 63%N; 70%N;
+    77%N; 84%N; 91%N; 98%N; 105%N; 112%N; 119%N; 126%N; 133%N; 140%N; 147%N; 154%N; 161%N; 168%N; 175%N;
+    182%N; 189%N; 196%N; 203%N; 210%N; 217%N; 224%N])]); ("type_"%string, PStr "validator_addr");
+    ("weight"%string, PInt 350686)].
+Example C16_ValidatorDescr_ex :
+  wt spec_table spec_ValidatorDescr ex_ValidatorDescr /\
+  match encode spec_table spec_ValidatorDescr ex_ValidatorDescr with
+  | Ok (bits, refs) =>
+      run_type impl_table 92 "ValidatorDescr" [] (Cell (-1) (bits ++ [true; false]) (refs ++ [Cell (-1) [] []]))
+      = Ok (ex_ValidatorDescr, mkS [true; false] [Cell (-1) [] []])
+  | Err _ => False
+  end.
+Proof. split; [wt_tac|vm_compute; reflexivity]. Qed.
+
+(* ---- TransactionOrdinary ---- *)
+Theorem C16_TransactionOrdinary : forall v tb tr bits refs fuel,
+  wt spec_table spec_TransactionOrdinary v -> encode spec_table spec_TransactionOrdinary v = Ok (bits, refs) -> (139 <= fuel)%nat ->
+  run_type impl_table fuel "TransactionOrdinary" [] (Cell (-1) (bits ++ tb) (refs ++ tr)) = Ok (v, mkS tb tr).
+Proof. exact (C16_generic "TransactionOrdinary" spec_TransactionOrdinary 139 eq_refl eq_refl). Qed.
+Print Assumptions C16_TransactionOrdinary.
+
+Definition ex_TransactionOrdinary : pv :=
+  PObj "TransactionOrdinary" [("aborted"%string, PBool true); ("action"%string, PObj "TrActionPhase"
+    [("action_list_hash"%string, PBytes [7%N; 14%N; 21%N; 28%N; 35%N; 42%N; 49%N; 56%N; 63%N; 70%N;
+    77%N; 84%N; 91%N; 98%N; 105%N; 112%N; 119%N; 126%N; 133%N; 140%N; 147%N; 154%N; 161%N; 168%N; 175%N;
+    182%N; 189%N; 196%N; 203%N; 210%N; 217%N; 224%N]); ("msgs_created"%string, PInt 65535);
+    ("no_funds"%string, PBool true); ("result_arg"%string, PInt (-3)); ("result_code"%string, PInt
+    (-3)); ("skipped_actions"%string, PInt 65535); ("spec_actions"%string, PInt 65535);
+    ("status_change"%string, PObj "AccStatusChange" [("type_"%string, PStr "deleted")]);
+    ("success"%string, PBool true); ("tot_actions"%string, PInt 65535); ("tot_msg_size"%string, PObj
+    "StorageUsedShort" [("bits"%string, PInt 300); ("cells"%string, PInt 300)]);
+    ("total_action_fees"%string, PInt 1000000007); ("total_fwd_fees"%string, PInt 1000000007);
+    ("valid"%string, PBool true)]); ("bounce"%string, PObj "TrBouncePhase" [("fwd_fees"%string, PInt
+    1000000007); ("msg_fees"%string, PInt 1000000007); ("msg_size"%string, PObj "StorageUsedShort"
+    [("bits"%string, PInt 300); ("cells"%string, PInt 300)]); ("type_"%string, PStr "ok")]);
+    ("compute_ph"%string, PObj "TrComputePhase" [("account_activated"%string, PBool true);
+    ("exit_arg"%string, PInt (-3)); ("exit_code"%string, PInt (-3)); ("gas_credit"%string, PInt 300);
+    ("gas_fees"%string, PInt 1000000007); ("gas_limit"%string, PInt 300); ("gas_used"%string, PInt 300);
+    ("mode"%string, PInt (-3)); ("msg_state_used"%string, PBool true); ("success"%string, PBool true);
+    ("type_"%string, PStr "vm"); ("vm_final_state_hash"%string, PBytes [7%N; 14%N; 21%N; 28%N; 35%N;
+    42%N; 49%N; 56%N; 63%N; 70%N; 77%N; 84%N; 91%N; 98%N; 105%N; 112%N; 119%N; 126%N; 133%N; 140%N;
+    147%N; 154%N; 161%N; 168%N; 175%N; 182%N; 189%N; 196%N; 203%N; 210%N; 217%N; 224%N]);
+    ("vm_init_state_hash"%string, PBytes [7%N; 14%N; 21%N; 28%N; 35%N; 42%N; 49%N; 56%N; 63%N; 70%N;
+    77%N; 84%N; 91%N; 98%N; 105%N; 112%N; 119%N; 126%N; 133%N; 140%N; 147%N; 154%N; 161%N; 168%N; 175%N;
+    182%N; 189%N; 196%N; 203%N; 210%N; 217%N; 224%N]); ("vm_steps"%string, PInt 954413)]);
+    ("credit_first"%string, PBool true); ("credit_ph"%string, PObj "TrCreditPhase" [("credit"%string,
+    PObj "CurrencyCollection" [("grams"%string, PInt 1000000007); ("other"%string, PObj
+    "ExtraCurrencyCollection" [("dict"%string, PDict [(3, PInt 300); (10, PInt 300); (11, PInt
+    300)])])]); ("due_fees_collected"%string, PInt 1000000007)]); ("destroyed"%string, PBool true);
+    ("storage_ph"%string, PObj "TrStoragePhase" [("status_change"%string, PObj "AccStatusChange"
+    [("type_"%string, PStr "deleted")]); ("storage_fees_collected"%string, PInt 1000000007);
+    ("storage_fees_due"%string, PInt 1000000007)]); ("type_"%string, PStr "ordinary")].
+Example C16_TransactionOrdinary_ex :
+  wt spec_table spec_TransactionOrdinary ex_TransactionOrdinary /\
+  match encode spec_table spec_TransactionOrdinary ex_TransactionOrdinary with
+  | Ok (bits, refs) =>
+      run_type impl_table 139 "TransactionOrdinary" [] (Cell (-1) (bits ++ [true; false]) (refs ++ [Cell (-1) [] []]))
+      = Ok (ex_TransactionOrdinary, mkS [true; false] [Cell (-1) [] []])
+  | Err _ => False
+  end.
+Proof. split; [wt_tac|vm_compute; reflexivity]. Qed.
+
+(* ---- TransactionStorage ---- *)
+Theorem C16_TransactionStorage : forall v tb tr bits refs fuel,
+  wt spec_table spec_TransactionStorage v -> encode spec_table spec_TransactionStorage v = Ok (bits, refs) -> (22 <= fuel)%nat ->
+  run_type impl_table fuel "TransactionStorage" [] (Cell (-1) (bits ++ tb) (refs ++ tr)) = Ok (v, mkS tb tr).
+Proof. exact (C16_generic "TransactionStorage" spec_TransactionStorage 22 eq_refl eq_refl). Qed.
+Print Assumptions C16_TransactionStorage.
+
+Definition ex_TransactionStorage : pv :=
+  PObj "TransactionStorage" [("storage_ph"%string, PObj "TrStoragePhase" [("status_change"%string, PObj
+    "AccStatusChange" [("type_"%string, PStr "deleted")]); ("storage_fees_collected"%string, PInt
+    1000000007); ("storage_fees_due"%string, PInt 1000000007)]); ("type_"%string, PStr "storage")].
+Example C16_TransactionStorage_ex :
+  wt spec_table spec_TransactionStorage ex_TransactionStorage /\
+  match encode spec_table spec_TransactionStorage ex_TransactionStorage with
+  | Ok (bits, refs) =>
+      run_type impl_table 22 "TransactionStorage" [] (Cell (-1) (bits ++ [true; false]) (refs ++ [Cell (-1) [] []]))
+      = Ok (ex_TransactionStorage, mkS [true; false] [Cell (-1) [] []])
+  | Err _ => False
+  end.
+Proof. split; [wt_tac|vm_compute; reflexivity]. Qed.
+
+(* ---- TransactionTickTock ---- *)
+Theorem C16_TransactionTickTock : forall v tb tr bits refs fuel,
+  wt spec_table spec_TransactionTickTock v -> encode spec_table spec_TransactionTickTock v = Ok (bits, refs) -> (92 <= fuel)%nat ->
+  run_type impl_table fuel "TransactionTickTock" [] (Cell (-1) (bits ++ tb) (refs ++ tr)) = Ok (v, mkS tb tr).
+Proof. exact (C16_generic "TransactionTickTock" spec_TransactionTickTock 92 eq_refl eq_refl). Qed.
+Print Assumptions C16_TransactionTickTock.
+
+Definition ex_TransactionTickTock : pv :=
+  PObj "TransactionTickTock" [("aborted"%string, PBool true); ("action"%string, PObj "TrActionPhase"
+    [("action_list_hash"%string, PBytes [7%N; 14%N; 21%N; 28%N; 35%N; 42%N; 49%N; 56%N; 63%N; 70%N;
+    77%N; 84%N; 91%N; 98%N; 105%N; 112%N; 119%N; 126%N; 133%N; 140%N; 147%N; 154%N; 161%N; 168%N; 175%N;
+    182%N; 189%N; 196%N; 203%N; 210%N; 217%N; 224%N]); ("msgs_created"%string, PInt 65535);
+    ("no_funds"%string, PBool true); ("result_arg"%string, PInt (-3)); ("result_code"%string, PInt
+    (-3)); ("skipped_actions"%string, PInt 65535); ("spec_actions"%string, PInt 65535);
+    ("status_change"%string, PObj "AccStatusChange" [("type_"%string, PStr "deleted")]);
+    ("success"%string, PBool true); ("tot_actions"%string, PInt 65535); ("tot_msg_size"%string, PObj
+    "StorageUsedShort" [("bits"%string, PInt 300); ("cells"%string, PInt 300)]);
+    ("total_action_fees"%string, PInt 1000000007); ("total_fwd_fees"%string, PInt 1000000007);
+    ("valid"%string, PBool true)]); ("compute_ph"%string, PObj "TrComputePhase"
+    [("account_activated"%string, PBool true); ("exit_arg"%string, PInt (-3)); ("exit_code"%string, PInt
+    (-3)); ("gas_credit"%string, PInt 300); ("gas_fees"%string, PInt 1000000007); ("gas_limit"%string,
+    PInt 300); ("gas_used"%string, PInt 300); ("mode"%string, PInt (-3)); ("msg_state_used"%string,
+    PBool true); ("success"%string, PBool true); ("type_"%string, PStr "vm");
+    ("vm_final_state_hash"%string, PBytes [7%N; 14%N; 21%N; 28%N; 35%N; 42%N; 49%N; 56%N; 63%N; 70%N;
+    77%N; 84%N; 91%N; 98%N; 105%N; 112%N; 119%N; 126%N; 133%N; 140%N; 147%N; 154%N; 161%N; 168%N; 175%N;
+    182%N; 189%N; 196%N; 203%N; 210%N; 217%N; 224%N]); ("vm_init_state_hash"%string, PBytes [7%N; 14%N;
+    21%N; 28%N; 35%N; 42%N; 49%N; 56%N; 63%N; 70%N; 77%N; 84%N; 91%N; 98%N; 105%N; 112%N; 119%N; 126%N;
+    133%N; 140%N; 147%N; 154%N; 161%N; 168%N; 175%N; 182%N; 189%N; 196%N; 203%N; 210%N; 217%N; 224%N]);
+    ("vm_steps"%string, PInt 954413)]); ("destroyed"%string, PBool true); ("is_tock"%string, PBool
+    true); ("storage_ph"%string, PObj "TrStoragePhase" [("status_change"%string, PObj "AccStatusChange"
+    [("type_"%string, PStr "deleted")]); ("storage_fees_collected"%string, PInt 1000000007);
+    ("storage_fees_due"%string, PInt 1000000007)]); ("type_"%string, PStr "tick_tock")].
+Example C16_TransactionTickTock_ex :
+  wt spec_table spec_TransactionTickTock ex_TransactionTickTock /\
+  match encode spec_table spec_TransactionTickTock ex_TransactionTickTock with
+  | Ok (bits, refs) =>
+      run_type impl_table 92 "TransactionTickTock" [] (Cell (-1) (bits ++ [true; false]) (refs ++ [Cell (-1) [] []]))
+      = Ok (ex_TransactionTickTock, mkS [true; false] [Cell (-1) [] []])
+  | Err _ => False
+  end.
+Proof. split; [wt_tac|vm_compute; reflexivity]. Qed.
+
+(* ---- TransactionSplitPrepare ---- *)
+Theorem C16_TransactionSplitPrepare : forall v tb tr bits refs fuel,
+  wt spec_table spec_TransactionSplitPrepare v -> encode spec_table spec_TransactionSplitPrepare v = Ok (bits, refs) -> (102 <= fuel)%nat ->
+  run_type impl_table fuel "TransactionSplitPrepare" [] (Cell (-1) (bits ++ tb) (refs ++ tr)) = Ok (v, mkS tb tr).
+Proof. exact (C16_generic "TransactionSplitPrepare" spec_TransactionSplitPrepare 102 eq_refl eq_refl). Qed.
+Print Assumptions C16_TransactionSplitPrepare.
+
+Definition ex_TransactionSplitPrepare : pv :=
+  PObj "TransactionSplitPrepare" [("aborted"%string, PBool true); ("action"%string, PObj "TrActionPhase"
+    [("action_list_hash"%string, PBytes [7%N; 14%N; 21%N; 28%N; 35%N; 42%N; 49%N; 56%N; 63%N; 70%N;
+    77%N; 84%N; 91%N; 98%N; 105%N; 112%N; 119%N; 126%N; 133%N; 140%N; 147%N; 154%N; 161%N; 168%N; 175%N;
+    182%N; 189%N; 196%N; 203%N; 210%N; 217%N; 224%N]); ("msgs_created"%string, PInt 65535);
+    ("no_funds"%string, PBool true); ("result_arg"%string, PInt (-3)); ("result_code"%string, PInt
+    (-3)); ("skipped_actions"%string, PInt 65535); ("spec_actions"%string, PInt 65535);
+    ("status_change"%string, PObj "AccStatusChange" [("type_"%string, PStr "deleted")]);
+    ("success"%string, PBool true); ("tot_actions"%string, PInt 65535); ("tot_msg_size"%string, PObj
+    "StorageUsedShort" [("bits"%string, PInt 300); ("cells"%string, PInt 300)]);
+    ("total_action_fees"%string, PInt 1000000007); ("total_fwd_fees"%string, PInt 1000000007);
+    ("valid"%string, PBool true)]); ("compute_ph"%string, PObj "TrComputePhase"
+    [("account_activated"%string, PBool true); ("exit_arg"%string, PInt (-3)); ("exit_code"%string, PInt
+    (-3)); ("gas_credit"%string, PInt 300); ("gas_fees"%string, PInt 1000000007); ("gas_limit"%string,
+    PInt 300); ("gas_used"%string, PInt 300); ("mode"%string, PInt (-3)); ("msg_state_used"%string,
+    PBool true); ("success"%string, PBool true); ("type_"%string, PStr "vm");
+    ("vm_final_state_hash"%string, PBytes [7%N; 14%N; 21%N; 28%N; 35%N; 42%N; 49%N; 56%N; 63%N; 70%N;
+    77%N; 84%N; 91%N; 98%N; 105%N; 112%N; 119%N; 126%N; 133%N; 140%N; 147%N; 154%N; 161%N; 168%N; 175%N;
+    182%N; 189%N; 196%N; 203%N; 210%N; 217%N; 224%N]); ("vm_init_state_hash"%string, PBytes [7%N; 14%N;
+    21%N; 28%N; 35%N; 42%N; 49%N; 56%N; 63%N; 70%N; 77%N; 84%N; 91%N; 98%N; 105%N; 112%N; 119%N; 126%N;
+    133%N; 140%N; 147%N; 154%N; 161%N; 168%N; 175%N; 182%N; 189%N; 196%N; 203%N; 210%N; 217%N; 224%N]);
+    ("vm_steps"%string, PInt 954413)]); ("destroyed"%string, PBool true); ("split_info"%string, PObj
+    "SplitMergeInfo" [("acc_split_depth"%string, PInt 63); ("cur_shard_pfx_len"%string, PInt 63);
+    ("sibling_addr"%string, PHex [7%N; 14%N; 21%N; 28%N; 35%N; 42%N; 49%N; 56%N; 63%N; 70%N; 77%N; 84%N;
+    91%N; 98%N; 105%N; 112%N; 119%N; 126%N; 133%N; 140%N; 147%N; 154%N; 161%N; 168%N; 175%N; 182%N;
+    189%N; 196%N; 203%N; 210%N; 217%N; 224%N]); ("this_addr"%string, PHex [7%N; 14%N; 21%N; 28%N; 35%N;
+    42%N; 49%N; 56%N; 63%N; 70%N; 77%N; 84%N; 91%N; 98%N; 105%N; 112%N; 119%N; 126%N; 133%N; 140%N;
+    147%N; 154%N; 161%N; 168%N; 175%N; 182%N; 189%N; 196%N; 203%N; 210%N; 217%N; 224%N])]);
+    ("storage_ph"%string, PObj "TrStoragePhase" [("status_change"%string, PObj "AccStatusChange"
+    [("type_"%string, PStr "deleted")]); ("storage_fees_collected"%string, PInt 1000000007);
+    ("storage_fees_due"%string, PInt 1000000007)]); ("type_"%string, PStr "split_prepare")].
+Example C16_TransactionSplitPrepare_ex :
+  wt spec_table spec_TransactionSplitPrepare ex_TransactionSplitPrepare /\
+  match encode spec_table spec_TransactionSplitPrepare ex_TransactionSplitPrepare with
+  | Ok (bits, refs) =>
+      run_type impl_table 102 "TransactionSplitPrepare" [] (Cell (-1) (bits ++ [true; false]) (refs ++ [Cell (-1) [] []]))
+      = Ok (ex_TransactionSplitPrepare, mkS [true; false] [Cell (-1) [] []])
+  | Err _ => False
+  end.
+Proof. split; [wt_tac|vm_compute; reflexivity]. Qed.
+
+(* ---- TransactionMergePrepare ---- *)
+Theorem C16_TransactionMergePrepare : forall v tb tr bits refs fuel,
+  wt spec_table spec_TransactionMergePrepare v -> encode spec_table spec_TransactionMergePrepare v = Ok (bits, refs) -> (32 <= fuel)%nat ->
+  run_type impl_table fuel "TransactionMergePrepare" [] (Cell (-1) (bits ++ tb) (refs ++ tr)) = Ok (v, mkS tb tr).
+Proof. exact (C16_generic "TransactionMergePrepare" spec_TransactionMergePrepare 32 eq_refl eq_refl). Qed.
+Print Assumptions C16_TransactionMergePrepare.
+
+Definition ex_TransactionMergePrepare : pv :=
+  PObj "TransactionMergePrepare" [("aborted"%string, PBool true); ("split_info"%string, PObj
+    "SplitMergeInfo" [("acc_split_depth"%string, PInt 63); ("cur_shard_pfx_len"%string, PInt 63);
+    ("sibling_addr"%string, PHex [7%N; 14%N; 21%N; 28%N; 35%N; 42%N; 49%N; 56%N; 63%N; 70%N; 77%N; 84%N;
+    91%N; 98%N; 105%N; 112%N; 119%N; 126%N; 133%N; 140%N; 147%N; 154%N; 161%N; 168%N; 175%N; 182%N;
+    189%N; 196%N; 203%N; 210%N; 217%N; 224%N]); ("this_addr"%string, PHex [7%N; 14%N; 21%N; 28%N; 35%N;
+    42%N; 49%N; 56%N; 63%N; 70%N; 77%N; 84%N; 91%N; 98%N; 105%N; 112%N; 119%N; 126%N; 133%N; 140%N;
+    147%N; 154%N; 161%N; 168%N; 175%N; 182%N; 189%N; 196%N; 203%N; 210%N; 217%N; 224%N])]);
+    ("storage_ph"%string, PObj "TrStoragePhase" [("status_change"%string, PObj "AccStatusChange"
+    [("type_"%string, PStr "deleted")]); ("storage_fees_collected"%string, PInt 1000000007);
+    ("storage_fees_due"%string, PInt 1000000007)]); ("type_"%string, PStr "merge_prepare")].
+Example C16_TransactionMergePrepare_ex :
+  wt spec_table spec_TransactionMergePrepare ex_TransactionMergePrepare /\
+  match encode spec_table spec_TransactionMergePrepare ex_TransactionMergePrepare with
+  | Ok (bits, refs) =>
+      run_type impl_table 32 "TransactionMergePrepare" [] (Cell (-1) (bits ++ [true; false]) (refs ++ [Cell (-1) [] []]))
+      = Ok (ex_TransactionMergePrepare, mkS [true; false] [Cell (-1) [] []])
+  | Err _ => False
+  end.
+Proof. split; [wt_tac|vm_compute; reflexivity]. Qed.
+
+(* ---- AccountState ---- *)
+Theorem C16_AccountState : forall v tb tr bits refs fuel,
+  wt spec_table spec_AccountState v -> encode spec_table spec_AccountState v = Ok (bits, refs) -> (34 <= fuel)%nat ->
+  run_type impl_table fuel "AccountState" [] (Cell (-1) (bits ++ tb) (refs ++ tr)) = Ok (v, mkS tb tr).
+Proof. exact (C16_generic "AccountState" spec_AccountState 34 eq_refl eq_refl). Qed.
+Print Assumptions C16_AccountState.
+
+Definition ex_AccountState : pv :=
+  PObj "AccountState" [("state_hash"%string, PHex [7%N; 14%N; 21%N; 28%N; 35%N; 42%N; 49%N; 56%N; 63%N;
+    70%N; 77%N; 84%N; 91%N; 98%N; 105%N; 112%N; 119%N; 126%N; 133%N; 140%N; 147%N; 154%N; 161%N; 168%N;
+    175%N; 182%N; 189%N; 196%N; 203%N; 210%N; 217%N; 224%N]); ("type_"%string, PStr "account_frozen")].
+Example C16_AccountState_ex :
+  wt spec_table spec_AccountState ex_AccountState /\
+  match encode spec_table spec_AccountState ex_AccountState with
+  | Ok (bits, refs) =>
+      run_type impl_table 34 "AccountState" [] (Cell (-1) (bits ++ [true; false]) (refs ++ [Cell (-1) [] []]))
+      = Ok (ex_AccountState, mkS [true; false] [Cell (-1) [] []])
+  | Err _ => False
+  end.
+Proof. split; [wt_tac|vm_compute; reflexivity]. Qed.
+
+(* ---- AccountStorage ---- *)
+Theorem C16_AccountStorage : forall v tb tr bits refs fuel,
+  wt spec_table spec_AccountStorage v -> encode spec_table spec_AccountStorage v = Ok (bits, refs) -> (55 <= fuel)%nat ->
+  run_type impl_table fuel "AccountStorage" [] (Cell (-1) (bits ++ tb) (refs ++ tr)) = Ok (v, mkS tb tr).
+Proof. exact (C16_generic "AccountStorage" spec_AccountStorage 55 eq_refl eq_refl). Qed.
+Print Assumptions C16_AccountStorage.
+
+Definition ex_AccountStorage : pv :=
+  PObj "AccountStorage" [("balance"%string, PObj "CurrencyCollection" [("grams"%string, PInt
+    1000000007); ("other"%string, PObj "ExtraCurrencyCollection" [("dict"%string, PDict [(3, PInt 300);
+    (10, PInt 300); (11, PInt 300)])])]); ("last_trans_lt"%string, PInt 350686); ("state"%string, PObj
+    "AccountState" [("state_hash"%string, PHex [7%N; 14%N; 21%N; 28%N; 35%N; 42%N; 49%N; 56%N; 63%N;
+    70%N; 77%N; 84%N; 91%N; 98%N; 105%N; 112%N; 119%N; 126%N; 133%N; 140%N; 147%N; 154%N; 161%N; 168%N;
+    175%N; 182%N; 189%N; 196%N; 203%N; 210%N; 217%N; 224%N]); ("type_"%string, PStr "account_frozen")])].
+Example C16_AccountStorage_ex :
+  wt spec_table spec_AccountStorage ex_AccountStorage /\
+  match encode spec_table spec_AccountStorage ex_AccountStorage with
+  | Ok (bits, refs) =>
+      run_type impl_table 55 "AccountStorage" [] (Cell (-1) (bits ++ [true; false]) (refs ++ [Cell (-1) [] []]))
+      = Ok (ex_AccountStorage, mkS [true; false] [Cell (-1) [] []])
+  | Err _ => False
+  end.
+Proof. split; [wt_tac|vm_compute; reflexivity]. Qed.
+
+(* ---- Account ---- *)
+Theorem C16_Account : forall v tb tr bits refs fuel,
+  wt spec_table spec_Account v -> encode spec_table spec_Account v = Ok (bits, refs) -> (80 <= fuel)%nat ->
+  run_type impl_table fuel "Account" [] (Cell (-1) (bits ++ tb) (refs ++ tr)) = Ok (v, mkS tb tr).
+Proof. exact (C16_generic "Account" spec_Account 80 eq_refl eq_refl). Qed.
+Print Assumptions C16_Account.
+
+Definition ex_Account : pv :=
+  PObj "Account" [("addr"%string, PAddr (AddrStd (Some (3, 5)) (-1) [7%N; 14%N; 21%N; 28%N; 35%N; 42%N;
+    49%N; 56%N; 63%N; 70%N; 77%N; 84%N; 91%N; 98%N; 105%N; 112%N; 119%N; 126%N; 133%N; 140%N; 147%N;
+    154%N; 161%N; 168%N; 175%N; 182%N; 189%N; 196%N; 203%N; 210%N; 217%N; 224%N])); ("storage"%string,
+    PObj "AccountStorage" [("balance"%string, PObj "CurrencyCollection" [("grams"%string, PInt
+    1000000007); ("other"%string, PObj "ExtraCurrencyCollection" [("dict"%string, PDict [(3, PInt 300);
+    (10, PInt 300); (11, PInt 300)])])]); ("last_trans_lt"%string, PInt 350686); ("state"%string, PObj
+    "AccountState" [("state_hash"%string, PHex [7%N; 14%N; 21%N; 28%N; 35%N; 42%N; 49%N; 56%N; 63%N;
+    70%N; 77%N; 84%N; 91%N; 98%N; 105%N; 112%N; 119%N; 126%N; 133%N; 140%N; 147%N; 154%N; 161%N; 168%N;
+    175%N; 182%N; 189%N; 196%N; 203%N; 210%N; 217%N; 224%N]); ("type_"%string, PStr
+    "account_frozen")])]); ("storage_stat"%string, PObj "StorageInfo" [("due_payment"%string, PInt
+    1000000007); ("last_paid"%string, PInt 954413); ("used"%string, PObj "StorageUsed" [("bits"%string,
+    PInt 300); ("cells"%string, PInt 300); ("public_cells"%string, PInt 300)])])].
+Example C16_Account_ex :
+  wt spec_table spec_Account ex_Account /\
+  match encode spec_table spec_Account ex_Account with
+  | Ok (bits, refs) =>
+      run_type impl_table 80 "Account" [] (Cell (-1) (bits ++ [true; false]) (refs ++ [Cell (-1) [] []]))
+      = Ok (ex_Account, mkS [true; false] [Cell (-1) [] []])
+  | Err _ => False
+  end.
+Proof. split; [wt_tac|vm_compute; reflexivity]. Qed.
+
+(* ---- DepthBalanceInfo ---- *)
+Theorem C16_DepthBalanceInfo : forall v tb tr bits refs fuel,
+  wt spec_table spec_DepthBalanceInfo v -> encode spec_table spec_DepthBalanceInfo v = Ok (bits, refs) -> (20 <= fuel)%nat ->
+  run_type impl_table fuel "DepthBalanceInfo" [] (Cell (-1) (bits ++ tb) (refs ++ tr)) = Ok (v, mkS tb tr).
+Proof. exact (C16_generic "DepthBalanceInfo" spec_DepthBalanceInfo 20 eq_refl eq_refl). Qed.
+Print Assumptions C16_DepthBalanceInfo.
+
+Definition ex_DepthBalanceInfo : pv :=
+  PObj "DepthBalanceInfo" [("balance"%string, PObj "CurrencyCollection" [("grams"%string, PInt
+    1000000007); ("other"%string, PObj "ExtraCurrencyCollection" [("dict"%string, PDict [(3, PInt 300);
+    (10, PInt 300); (11, PInt 300)])])]); ("split_depth"%string, PInt 30)].
+Example C16_DepthBalanceInfo_ex :
+  wt spec_table spec_DepthBalanceInfo ex_DepthBalanceInfo /\
+  match encode spec_table spec_DepthBalanceInfo ex_DepthBalanceInfo with
+  | Ok (bits, refs) =>
+      run_type impl_table 20 "DepthBalanceInfo" [] (Cell (-1) (bits ++ [true; false]) (refs ++ [Cell (-1) [] []]))
+      = Ok (ex_DepthBalanceInfo, mkS [true; false] [Cell (-1) [] []])
+  | Err _ => False
+  end.
+Proof. split; [wt_tac|vm_compute; reflexivity]. Qed.
+
+(* ---- ImportFees ---- *)
+Theorem C16_ImportFees : forall v tb tr bits refs fuel,
+  wt spec_table spec_ImportFees v -> encode spec_table spec_ImportFees v = Ok (bits, refs) -> (20 <= fuel)%nat ->
+  run_type impl_table fuel "ImportFees" [] (Cell (-1) (bits ++ tb) (refs ++ tr)) = Ok (v, mkS tb tr).
+Proof. exact (C16_generic "ImportFees" spec_ImportFees 20 eq_refl eq_refl). Qed.
+Print Assumptions C16_ImportFees.
+
+Definition ex_ImportFees : pv :=
+  PObj "ImportFees" [("fees_collected"%string, PInt 1000000007); ("value_imported"%string, PObj
+    "CurrencyCollection" [("grams"%string, PInt 1000000007); ("other"%string, PObj
+    "ExtraCurrencyCollection" [("dict"%string, PDict [(3, PInt 300); (10, PInt 300); (11, PInt
+    300)])])])].
+Example C16_ImportFees_ex :
+  wt spec_table spec_ImportFees ex_ImportFees /\
+  match encode spec_table spec_ImportFees ex_ImportFees with
+  | Ok (bits, refs) =>
+      run_type impl_table 20 "ImportFees" [] (Cell (-1) (bits ++ [true; false]) (refs ++ [Cell (-1) [] []]))
+      = Ok (ex_ImportFees, mkS [true; false] [Cell (-1) [] []])
+  | Err _ => False
+  end.
+Proof. split; [wt_tac|vm_compute; reflexivity]. Qed.
+
+(* ---- LibRef ---- *)
+Theorem C16_LibRef : forall v tb tr bits refs fuel,
+  wt spec_table spec_LibRef v -> encode spec_table spec_LibRef v = Ok (bits, refs) -> (7 <= fuel)%nat ->
+  run_type impl_table fuel "LibRef" [] (Cell (-1) (bits ++ tb) (refs ++ tr)) = Ok (v, mkS tb tr).
+Proof. exact (C16_generic "LibRef" spec_LibRef 7 eq_refl eq_refl). Qed.
+Print Assumptions C16_LibRef.
+
+Definition ex_LibRef : pv :=
+  PObj "LibRef" [("lib_hash"%string, PNone); ("library"%string, PCell (Cell (-1) [true; false; true]
+    [])); ("type_"%string, PStr "libref_ref")].
+Example C16_LibRef_ex :
+  wt spec_table spec_LibRef ex_LibRef /\
+  match encode spec_table spec_LibRef ex_LibRef with
+  | Ok (bits, refs) =>
+      run_type impl_table 7 "LibRef" [] (Cell (-1) (bits ++ [true; false]) (refs ++ [Cell (-1) [] []]))
+      = Ok (ex_LibRef, mkS [true; false] [Cell (-1) [] []])
+  | Err _ => False
+  end.
+Proof. split; [wt_tac|vm_compute; reflexivity]. Qed.
+
+(* ---- ValidatorInfo ---- *)
+Theorem C16_ValidatorInfo : forall v tb tr bits refs fuel,
+  wt spec_table spec_ValidatorInfo v -> encode spec_table spec_ValidatorInfo v = Ok (bits, refs) -> (7 <= fuel)%nat ->
+  run_type impl_table fuel "ValidatorInfo" [] (Cell (-1) (bits ++ tb) (refs ++ tr)) = Ok (v, mkS tb tr).
+Proof. exact (C16_generic "ValidatorInfo" spec_ValidatorInfo 7 eq_refl eq_refl). Qed.
+Print Assumptions C16_ValidatorInfo.
+
+Definition ex_ValidatorInfo : pv :=
+  PObj "ValidatorInfo" [("catchain_seqno"%string, PInt 954413); ("nx_cc_updated"%string, PBool true);
+    ("validator_list_hash_short"%string, PInt 954413)].
+Example C16_ValidatorInfo_ex :
+  wt spec_table spec_ValidatorInfo ex_ValidatorInfo /\
+  match encode spec_table spec_ValidatorInfo ex_ValidatorInfo with
+  | Ok (bits, refs) =>
+      run_type impl_table 7 "ValidatorInfo" [] (Cell (-1) (bits ++ [true; false]) (refs ++ [Cell (-1) [] []]))
+      = Ok (ex_ValidatorInfo, mkS [true; false] [Cell (-1) [] []])
+  | Err _ => False
+  end.
+Proof. split; [wt_tac|vm_compute; reflexivity]. Qed.
+
+(* ---- KeyMaxLt ---- *)
+Theorem C16_KeyMaxLt : forall v tb tr bits refs fuel,
+  wt spec_table spec_KeyMaxLt v -> encode spec_table spec_KeyMaxLt v = Ok (bits, refs) -> (6 <= fuel)%nat ->
+  run_type impl_table fuel "KeyMaxLt" [] (Cell (-1) (bits ++ tb) (refs ++ tr)) = Ok (v, mkS tb tr).
+Proof. exact (C16_generic "KeyMaxLt" spec_KeyMaxLt 6 eq_refl eq_refl). Qed.
+Print Assumptions C16_KeyMaxLt.
+
+Definition ex_KeyMaxLt : pv :=
+  PObj "KeyMaxLt" [("key"%string, PBool true); ("max_end_lt"%string, PInt 350686)].
+Example C16_KeyMaxLt_ex :
+  wt spec_table spec_KeyMaxLt ex_KeyMaxLt /\
+  match encode spec_table spec_KeyMaxLt ex_KeyMaxLt with
+  | Ok (bits, refs) =>
+      run_type impl_table 6 "KeyMaxLt" [] (Cell (-1) (bits ++ [true; false]) (refs ++ [Cell (-1) [] []]))
+      = Ok (ex_KeyMaxLt, mkS [true; false] [Cell (-1) [] []])
+  | Err _ => False
+  end.
+Proof. split; [wt_tac|vm_compute; reflexivity]. Qed.
+
+(* ---- KeyExtBlkRef ---- *)
+Theorem C16_KeyExtBlkRef : forall v tb tr bits refs fuel,
+  wt spec_table spec_KeyExtBlkRef v -> encode spec_table spec_KeyExtBlkRef v = Ok (bits, refs) -> (14 <= fuel)%nat ->
+  run_type impl_table fuel "KeyExtBlkRef" [] (Cell (-1) (bits ++ tb) (refs ++ tr)) = Ok (v, mkS tb tr).
+Proof. exact (C16_generic "KeyExtBlkRef" spec_KeyExtBlkRef 14 eq_refl eq_refl). Qed.
+Print Assumptions C16_KeyExtBlkRef.
+
+Definition ex_KeyExtBlkRef : pv :=
+  PObj "KeyExtBlkRef" [("blk_ref"%string, PObj "ExtBlkRef" [("end_lt"%string, PInt 350686);
+    ("file_hash"%string, PBytes [7%N; 14%N; 21%N; 28%N; 35%N; 42%N; 49%N; 56%N; 63%N; 70%N; 77%N; 84%N;
+    91%N; 98%N; 105%N; 112%N; 119%N; 126%N; 133%N; 140%N; 147%N; 154%N; 161%N; 168%N; 175%N; 182%N;
+    189%N; 196%N; 203%N; 210%N; 217%N; 224%N]); ("root_hash"%string, PBytes [7%N; 14%N; 21%N; 28%N;
+    35%N; 42%N; 49%N; 56%N; 63%N; 70%N; 77%N; 84%N; 91%N; 98%N; 105%N; 112%N; 119%N; 126%N; 133%N;
+    140%N; 147%N; 154%N; 161%N; 168%N; 175%N; 182%N; 189%N; 196%N; 203%N; 210%N; 217%N; 224%N]);
+    ("seqno"%string, PInt 954413)]); ("key"%string, PBool true)].
+Example C16_KeyExtBlkRef_ex :
+  wt spec_table spec_KeyExtBlkRef ex_KeyExtBlkRef /\
+  match encode spec_table spec_KeyExtBlkRef ex_KeyExtBlkRef with
+  | Ok (bits, refs) =>
+      run_type impl_table 14 "KeyExtBlkRef" [] (Cell (-1) (bits ++ [true; false]) (refs ++ [Cell (-1) [] []]))
+      = Ok (ex_KeyExtBlkRef, mkS [true; false] [Cell (-1) [] []])
+  | Err _ => False
+  end.
+Proof. split; [wt_tac|vm_compute; reflexivity]. Qed.
+
+(* ---- Counters ---- *)
+Theorem C16_Counters : forall v tb tr bits refs fuel,
+  wt spec_table spec_Counters v -> encode spec_table spec_Counters v = Ok (bits, refs) -> (8 <= fuel)%nat ->
+  run_type impl_table fuel "Counters" [] (Cell (-1) (bits ++ tb) (refs ++ tr)) = Ok (v, mkS tb tr).
+Proof. exact (C16_generic "Counters" spec_Counters 8 eq_refl eq_refl). Qed.
+Print Assumptions C16_Counters.
+
+Definition ex_Counters : pv :=
+  PObj "Counters" [("cnt2048"%string, PInt 350686); ("cnt65536"%string, PInt 350686);
+    ("last_updated"%string, PInt 954413); ("total"%string, PInt 350686)].
+Example C16_Counters_ex :
+  wt spec_table spec_Counters ex_Counters /\
+  match encode spec_table spec_Counters ex_Counters with
+  | Ok (bits, refs) =>
+      run_type impl_table 8 "Counters" [] (Cell (-1) (bits ++ [true; false]) (refs ++ [Cell (-1) [] []]))
+      = Ok (ex_Counters, mkS [true; false] [Cell (-1) [] []])
+  | Err _ => False
+  end.
+Proof. split; [wt_tac|vm_compute; reflexivity]. Qed.
+
+(* ---- CreatorStats ---- *)
+Theorem C16_CreatorStats : forall v tb tr bits refs fuel,
+  wt spec_table spec_CreatorStats v -> encode spec_table spec_CreatorStats v = Ok (bits, refs) -> (30 <= fuel)%nat ->
+  run_type impl_table fuel "CreatorStats" [] (Cell (-1) (bits ++ tb) (refs ++ tr)) = Ok (v, mkS tb tr).
+Proof. exact (C16_generic "CreatorStats" spec_CreatorStats 30 eq_refl eq_refl). Qed.
+Print Assumptions C16_CreatorStats.
+
+Definition ex_CreatorStats : pv :=
+  PObj "CreatorStats" [("mc_blocks"%string, PObj "Counters" [("cnt2048"%string, PInt 350686);
+    ("cnt65536"%string, PInt 350686); ("last_updated"%string, PInt 954413); ("total"%string, PInt
+    350686)]); ("shard_blocks"%string, PObj "Counters" [("cnt2048"%string, PInt 350686);
+    ("cnt65536"%string, PInt 350686); ("last_updated"%string, PInt 954413); ("total"%string, PInt
+    350686)])].
+Example C16_CreatorStats_ex :
+  wt spec_table spec_CreatorStats ex_CreatorStats /\
+  match encode spec_table spec_CreatorStats ex_CreatorStats with
+  | Ok (bits, refs) =>
+      run_type impl_table 30 "CreatorStats" [] (Cell (-1) (bits ++ [true; false]) (refs ++ [Cell (-1) [] []]))
+      = Ok (ex_CreatorStats, mkS [true; false] [Cell (-1) [] []])
+  | Err _ => False
+  end.
+Proof. split; [wt_tac|vm_compute; reflexivity]. Qed.
+
+(* ---- ConfigParam6 ---- *)
+Theorem C16_ConfigParam6 : forall v tb tr bits refs fuel,
+  wt spec_table spec_ConfigParam6 v -> encode spec_table spec_ConfigParam6 v = Ok (bits, refs) -> (6 <= fuel)%nat ->
+  run_type impl_table fuel "ConfigParam6" [] (Cell (-1) (bits ++ tb) (refs ++ tr)) = Ok (v, mkS tb tr).
+Proof. exact (C16_generic "ConfigParam6" spec_ConfigParam6 6 eq_refl eq_refl). Qed.
+Print Assumptions C16_ConfigParam6.
+
+Definition ex_ConfigParam6 : pv :=
+  PObj "ConfigParam6" [("mint_add_price"%string, PInt 1000000007); ("mint_new_price"%string, PInt
+    1000000007)].
+Example C16_ConfigParam6_ex :
+  wt spec_table spec_ConfigParam6 ex_ConfigParam6 /\
+  match encode spec_table spec_ConfigParam6 ex_ConfigParam6 with
+  | Ok (bits, refs) =>
+      run_type impl_table 6 "ConfigParam6" [] (Cell (-1) (bits ++ [true; false]) (refs ++ [Cell (-1) [] []]))
+      = Ok (ex_ConfigParam6, mkS [true; false] [Cell (-1) [] []])
+  | Err _ => False
+  end.
+Proof. split; [wt_tac|vm_compute; reflexivity]. Qed.
+
+(* ---- ConfigParam7 ---- *)
+Theorem C16_ConfigParam7 : forall v tb tr bits refs fuel,
+  wt spec_table spec_ConfigParam7 v -> encode spec_table spec_ConfigParam7 v = Ok (bits, refs) -> (13 <= fuel)%nat ->
+  run_type impl_table fuel "ConfigParam7" [] (Cell (-1) (bits ++ tb) (refs ++ tr)) = Ok (v, mkS tb tr).
+Proof. exact (C16_generic "ConfigParam7" spec_ConfigParam7 13 eq_refl eq_refl). Qed.
+Print Assumptions C16_ConfigParam7.
+
+Definition ex_ConfigParam7 : pv :=
+  PObj "ConfigParam7" [("to_mint"%string, PObj "ExtraCurrencyCollection" [("dict"%string, PDict [(3,
+    PInt 300); (10, PInt 300); (11, PInt 300)])])].
+Example C16_ConfigParam7_ex :
+  wt spec_table spec_ConfigParam7 ex_ConfigParam7 /\
+  match encode spec_table spec_ConfigParam7 ex_ConfigParam7 with
+  | Ok (bits, refs) =>
+      run_type impl_table 13 "ConfigParam7" [] (Cell (-1) (bits ++ [true; false]) (refs ++ [Cell (-1) [] []]))
+      = Ok (ex_ConfigParam7, mkS [true; false] [Cell (-1) [] []])
+  | Err _ => False
+  end.
+Proof. split; [wt_tac|vm_compute; reflexivity]. Qed.
+
+(* ---- ConfigProposalSetup ---- *)
+Theorem C16_ConfigProposalSetup : forall v tb tr bits refs fuel,
+  wt spec_table spec_ConfigProposalSetup v -> encode spec_table spec_ConfigProposalSetup v = Ok (bits, refs) -> (28 <= fuel)%nat ->
+  run_type impl_table fuel "ConfigProposalSetup" [] (Cell (-1) (bits ++ tb) (refs ++ tr)) = Ok (v, mkS tb tr).
+Proof. exact (C16_generic "ConfigProposalSetup" spec_ConfigProposalSetup 28 eq_refl eq_refl). Qed.
+Print Assumptions C16_ConfigProposalSetup.
+
+Definition ex_ConfigProposalSetup : pv :=
+  PObj "ConfigProposalSetup" [("bit_price"%string, PInt 954413); ("cell_price"%string, PInt 954413);
+    ("max_losses"%string, PInt 255); ("max_store_sec"%string, PInt 954413); ("max_tot_rounds"%string,
+    PInt 255); ("min_store_sec"%string, PInt 954413); ("min_tot_rounds"%string, PInt 255);
+    ("min_wins"%string, PInt 255)].
+Example C16_ConfigProposalSetup_ex :
+  wt spec_table spec_ConfigProposalSetup ex_ConfigProposalSetup /\
+  match encode spec_table spec_ConfigProposalSetup ex_ConfigProposalSetup with
+  | Ok (bits, refs) =>
+      run_type impl_table 28 "ConfigProposalSetup" [] (Cell (-1) (bits ++ [true; false]) (refs ++ [Cell (-1) [] []]))
+      = Ok (ex_ConfigProposalSetup, mkS [true; false] [Cell (-1) [] []])
+  | Err _ => False
+  end.
+Proof. split; [wt_tac|vm_compute; reflexivity]. Qed.
+
+(* ---- ConfigVotingSetup ---- *)
+Theorem C16_ConfigVotingSetup : forall v tb tr bits refs fuel,
+  wt spec_table spec_ConfigVotingSetup v -> encode spec_table spec_ConfigVotingSetup v = Ok (bits, refs) -> (80 <= fuel)%nat ->
+  run_type impl_table fuel "ConfigVotingSetup" [] (Cell (-1) (bits ++ tb) (refs ++ tr)) = Ok (v, mkS tb tr).
+Proof. exact (C16_generic "ConfigVotingSetup" spec_ConfigVotingSetup 80 eq_refl eq_refl). Qed.
+Print Assumptions C16_ConfigVotingSetup.
+
+Definition ex_ConfigVotingSetup : pv :=
+  PObj "ConfigVotingSetup" [("critical_params"%string, PObj "ConfigProposalSetup" [("bit_price"%string,
+    PInt 954413); ("cell_price"%string, PInt 954413); ("max_losses"%string, PInt 255);
+    ("max_store_sec"%string, PInt 954413); ("max_tot_rounds"%string, PInt 255); ("min_store_sec"%string,
+    PInt 954413); ("min_tot_rounds"%string, PInt 255); ("min_wins"%string, PInt 255)]);
+    ("normal_params"%string, PObj "ConfigProposalSetup" [("bit_price"%string, PInt 954413);
+    ("cell_price"%string, PInt 954413); ("max_losses"%string, PInt 255); ("max_store_sec"%string, PInt
+    954413); ("max_tot_rounds"%string, PInt 255); ("min_store_sec"%string, PInt 954413);
+    ("min_tot_rounds"%string, PInt 255); ("min_wins"%string, PInt 255)])].
+Example C16_ConfigVotingSetup_ex :
+  wt spec_table spec_ConfigVotingSetup ex_ConfigVotingSetup /\
+  match encode spec_table spec_ConfigVotingSetup ex_ConfigVotingSetup with
+  | Ok (bits, refs) =>
+      run_type impl_table 80 "ConfigVotingSetup" [] (Cell (-1) (bits ++ [true; false]) (refs ++ [Cell (-1) [] []]))
+      = Ok (ex_ConfigVotingSetup, mkS [true; false] [Cell (-1) [] []])
+  | Err _ => False
+  end.
+Proof. split; [wt_tac|vm_compute; reflexivity]. Qed.
+
+(* ---- WcSplitMergeTimings ---- *)
+Theorem C16_WcSplitMergeTimings : forall v tb tr bits refs fuel,
+  wt spec_table spec_WcSplitMergeTimings v -> encode spec_table spec_WcSplitMergeTimings v = Ok (bits, refs) -> (16 <= fuel)%nat ->
+  run_type impl_table fuel "WcSplitMergeTimings" [] (Cell (-1) (bits ++ tb) (refs ++ tr)) = Ok (v, mkS tb tr).
+Proof. exact (C16_generic "WcSplitMergeTimings" spec_WcSplitMergeTimings 16 eq_refl eq_refl). Qed.
+Print Assumptions C16_WcSplitMergeTimings.
+
+Definition ex_WcSplitMergeTimings : pv :=
+  PObj "WcSplitMergeTimings" [("max_split_merge_delay"%string, PInt 954413);
+    ("min_split_merge_interval"%string, PInt 954413); ("split_merge_delay"%string, PInt 954413);
+    ("split_merge_interval"%string, PInt 954413)].
+Example C16_WcSplitMergeTimings_ex :
+  wt spec_table spec_WcSplitMergeTimings ex_WcSplitMergeTimings /\
+  match encode spec_table spec_WcSplitMergeTimings ex_WcSplitMergeTimings with
+  | Ok (bits, refs) =>
+      run_type impl_table 16 "WcSplitMergeTimings" [] (Cell (-1) (bits ++ [true; false]) (refs ++ [Cell (-1) [] []]))
+      = Ok (ex_WcSplitMergeTimings, mkS [true; false] [Cell (-1) [] []])
+  | Err _ => False
+  end.
+Proof. split; [wt_tac|vm_compute; reflexivity]. Qed.
+
+(* ---- ComplaintPricing ---- *)
+Theorem C16_ComplaintPricing : forall v tb tr bits refs fuel,
+  wt spec_table spec_ComplaintPricing v -> encode spec_table spec_ComplaintPricing v = Ok (bits, refs) -> (23 <= fuel)%nat ->
+  run_type impl_table fuel "ComplaintPricing" [] (Cell (-1) (bits ++ tb) (refs ++ tr)) = Ok (v, mkS tb tr).
+Proof. exact (C16_generic "ComplaintPricing" spec_ComplaintPricing 23 eq_refl eq_refl). Qed.
+Print Assumptions C16_ComplaintPricing.
+
+Definition ex_ComplaintPricing : pv :=
+  PObj "ComplaintPricing" [("bit_price"%string, PInt 1000000007); ("cell_price"%string, PInt
+    1000000007); ("deposit"%string, PInt 1000000007)].
+Example C16_ComplaintPricing_ex :
+  wt spec_table spec_ComplaintPricing ex_ComplaintPricing /\
+  match encode spec_table spec_ComplaintPricing ex_ComplaintPricing with
+  | Ok (bits, refs) =>
+      run_type impl_table 23 "ComplaintPricing" [] (Cell (-1) (bits ++ [true; false]) (refs ++ [Cell (-1) [] []]))
+      = Ok (ex_ComplaintPricing, mkS [true; false] [Cell (-1) [] []])
+  | Err _ => False
+  end.
+Proof. split; [wt_tac|vm_compute; reflexivity]. Qed.
+
+(* ---- BlockCreateFees ---- *)
+Theorem C16_BlockCreateFees : forall v tb tr bits refs fuel,
+  wt spec_table spec_BlockCreateFees v -> encode spec_table spec_BlockCreateFees v = Ok (bits, refs) -> (22 <= fuel)%nat ->
+  run_type impl_table fuel "BlockCreateFees" [] (Cell (-1) (bits ++ tb) (refs ++ tr)) = Ok (v, mkS tb tr).
+Proof. exact (C16_generic "BlockCreateFees" spec_BlockCreateFees 22 eq_refl eq_refl). Qed.
+Print Assumptions C16_BlockCreateFees.
+
+Definition ex_BlockCreateFees : pv :=
+  PObj "BlockCreateFees" [("basechain_block_fee"%string, PInt 1000000007);
+    ("masterchain_block_fee"%string, PInt 1000000007)].
+Example C16_BlockCreateFees_ex :
+  wt spec_table spec_BlockCreateFees ex_BlockCreateFees /\
+  match encode spec_table spec_BlockCreateFees ex_BlockCreateFees with
+  | Ok (bits, refs) =>
+      run_type impl_table 22 "BlockCreateFees" [] (Cell (-1) (bits ++ [true; false]) (refs ++ [Cell (-1) [] []]))
+      = Ok (ex_BlockCreateFees, mkS [true; false] [Cell (-1) [] []])
+  | Err _ => False
+  end.
+Proof. split; [wt_tac|vm_compute; reflexivity]. Qed.
+
+(* ---- ConfigParam15 ---- *)
+Theorem C16_ConfigParam15 : forall v tb tr bits refs fuel,
+  wt spec_table spec_ConfigParam15 v -> encode spec_table spec_ConfigParam15 v = Ok (bits, refs) -> (8 <= fuel)%nat ->
+  run_type impl_table fuel "ConfigParam15" [] (Cell (-1) (bits ++ tb) (refs ++ tr)) = Ok (v, mkS tb tr).
+Proof. exact (C16_generic "ConfigParam15" spec_ConfigParam15 8 eq_refl eq_refl). Qed.
+Print Assumptions C16_ConfigParam15.
+
+Definition ex_ConfigParam15 : pv :=
+  PObj "ConfigParam15" [("elections_end_before"%string, PInt 954413); ("elections_start_before"%string,
+    PInt 954413); ("stake_held_for"%string, PInt 954413); ("validators_elected_for"%string, PInt
+    954413)].
+Example C16_ConfigParam15_ex :
+  wt spec_table spec_ConfigParam15 ex_ConfigParam15 /\
+  match encode spec_table spec_ConfigParam15 ex_ConfigParam15 with
+  | Ok (bits, refs) =>
+      run_type impl_table 8 "ConfigParam15" [] (Cell (-1) (bits ++ [true; false]) (refs ++ [Cell (-1) [] []]))
+      = Ok (ex_ConfigParam15, mkS [true; false] [Cell (-1) [] []])
+  | Err _ => False
+  end.
+Proof. split; [wt_tac|vm_compute; reflexivity]. Qed.
+
+(* ---- ConfigParam17 ---- *)
+Theorem C16_ConfigParam17 : forall v tb tr bits refs fuel,
+  wt spec_table spec_ConfigParam17 v -> encode spec_table spec_ConfigParam17 v = Ok (bits, refs) -> (8 <= fuel)%nat ->
+  run_type impl_table fuel "ConfigParam17" [] (Cell (-1) (bits ++ tb) (refs ++ tr)) = Ok (v, mkS tb tr).
+Proof. exact (C16_generic "ConfigParam17" spec_ConfigParam17 8 eq_refl eq_refl). Qed.
+Print Assumptions C16_ConfigParam17.
+
+Definition ex_ConfigParam17 : pv :=
+  PObj "ConfigParam17" [("max_stake"%string, PInt 1000000007); ("max_stake_factor"%string, PInt 954413);
+    ("min_stake"%string, PInt 1000000007); ("min_total_stake"%string, PInt 1000000007)].
+Example C16_ConfigParam17_ex :
+  wt spec_table spec_ConfigParam17 ex_ConfigParam17 /\
+  match encode spec_table spec_ConfigParam17 ex_ConfigParam17 with
+  | Ok (bits, refs) =>
+      run_type impl_table 8 "ConfigParam17" [] (Cell (-1) (bits ++ [true; false]) (refs ++ [Cell (-1) [] []]))
+      = Ok (ex_ConfigParam17, mkS [true; false] [Cell (-1) [] []])
+  | Err _ => False
+  end.
+Proof. split; [wt_tac|vm_compute; reflexivity]. Qed.
+
+(* ---- StoragePrices ---- *)
+Theorem C16_StoragePrices : forall v tb tr bits refs fuel,
+  wt spec_table spec_StoragePrices v -> encode spec_table spec_StoragePrices v = Ok (bits, refs) -> (25 <= fuel)%nat ->
+  run_type impl_table fuel "StoragePrices" [] (Cell (-1) (bits ++ tb) (refs ++ tr)) = Ok (v, mkS tb tr).
+Proof. exact (C16_generic "StoragePrices" spec_StoragePrices 25 eq_refl eq_refl). Qed.
+Print Assumptions C16_StoragePrices.
+
+Definition ex_StoragePrices : pv :=
+  PObj "StoragePrices" [("bit_price_ps"%string, PInt 350686); ("cell_price_ps"%string, PInt 350686);
+    ("mc_bit_price_ps"%string, PInt 350686); ("mc_cell_price_ps"%string, PInt 350686);
+    ("utime_since"%string, PInt 954413)].
+Example C16_StoragePrices_ex :
+  wt spec_table spec_StoragePrices ex_StoragePrices /\
+  match encode spec_table spec_StoragePrices ex_StoragePrices with
+  | Ok (bits, refs) =>
+      run_type impl_table 25 "StoragePrices" [] (Cell (-1) (bits ++ [true; false]) (refs ++ [Cell (-1) [] []]))
+      = Ok (ex_StoragePrices, mkS [true; false] [Cell (-1) [] []])
+  | Err _ => False
+  end.
+Proof. split; [wt_tac|vm_compute; reflexivity]. Qed.
+
+(* ---- BlockLimits ---- *)
+Theorem C16_BlockLimits : forall v tb tr bits refs fuel,
+  wt spec_table spec_BlockLimits v -> encode spec_table spec_BlockLimits v = Ok (bits, refs) -> (98 <= fuel)%nat ->
+  run_type impl_table fuel "BlockLimits" [] (Cell (-1) (bits ++ tb) (refs ++ tr)) = Ok (v, mkS tb tr).
+Proof. exact (C16_generic "BlockLimits" spec_BlockLimits 98 eq_refl eq_refl). Qed.
+Print Assumptions C16_BlockLimits.
+
+Definition ex_BlockLimits : pv :=
+  PObj "BlockLimits" [("bytes"%string, PObj "ParamLimits" [("hard_limit"%string, PInt 954413);
+    ("soft_limit"%string, PInt 954413); ("underload"%string, PInt 954413)]); ("gas"%string, PObj
+    "ParamLimits" [("hard_limit"%string, PInt 954413); ("soft_limit"%string, PInt 954413);
+    ("underload"%string, PInt 954413)]); ("lt_delta"%string, PObj "ParamLimits" [("hard_limit"%string,
+    PInt 954413); ("soft_limit"%string, PInt 954413); ("underload"%string, PInt 954413)])].
+Example C16_BlockLimits_ex :
+  wt spec_table spec_BlockLimits ex_BlockLimits /\
+  match encode spec_table spec_BlockLimits ex_BlockLimits with
+  | Ok (bits, refs) =>
+      run_type impl_table 98 "BlockLimits" [] (Cell (-1) (bits ++ [true; false]) (refs ++ [Cell (-1) [] []]))
+      = Ok (ex_BlockLimits, mkS [true; false] [Cell (-1) [] []])
+  | Err _ => False
+  end.
+Proof. split; [wt_tac|vm_compute; reflexivity]. Qed.
+
+(* ---- MsgForwardPrices ---- *)
+Theorem C16_MsgForwardPrices : forall v tb tr bits refs fuel,
+  wt spec_table spec_MsgForwardPrices v -> encode spec_table spec_MsgForwardPrices v = Ok (bits, refs) -> (26 <= fuel)%nat ->
+  run_type impl_table fuel "MsgForwardPrices" [] (Cell (-1) (bits ++ tb) (refs ++ tr)) = Ok (v, mkS tb tr).
+Proof. exact (C16_generic "MsgForwardPrices" spec_MsgForwardPrices 26 eq_refl eq_refl). Qed.
+Print Assumptions C16_MsgForwardPrices.
+
+Definition ex_MsgForwardPrices : pv :=
+  PObj "MsgForwardPrices" [("bit_price"%string, PInt 350686); ("cell_price"%string, PInt 350686);
+    ("first_frac"%string, PInt 65535); ("ihr_price_factor"%string, PInt 954413); ("lump_price"%string,
+    PInt 350686); ("next_frac"%string, PInt 65535)].
+Example C16_MsgForwardPrices_ex :
+  wt spec_table spec_MsgForwardPrices ex_MsgForwardPrices /\
+  match encode spec_table spec_MsgForwardPrices ex_MsgForwardPrices with
+  | Ok (bits, refs) =>
+      run_type impl_table 26 "MsgForwardPrices" [] (Cell (-1) (bits ++ [true; false]) (refs ++ [Cell (-1) [] []]))
+      = Ok (ex_MsgForwardPrices, mkS [true; false] [Cell (-1) [] []])
+  | Err _ => False
+  end.
+Proof. split; [wt_tac|vm_compute; reflexivity]. Qed.
+
+(* ---- JettonBridgePrices ---- *)
+Theorem C16_JettonBridgePrices : forall v tb tr bits refs fuel,
+  wt spec_table spec_JettonBridgePrices v -> encode spec_table spec_JettonBridgePrices v = Ok (bits, refs) -> (10 <= fuel)%nat ->
+  run_type impl_table fuel "JettonBridgePrices" [] (Cell (-1) (bits ++ tb) (refs ++ tr)) = Ok (v, mkS tb tr).
+Proof. exact (C16_generic "JettonBridgePrices" spec_JettonBridgePrices 10 eq_refl eq_refl). Qed.
+Print Assumptions C16_JettonBridgePrices.
+
+Definition ex_JettonBridgePrices : pv :=
+  PObj "JettonBridgePrices" [("bridge_burn_fee"%string, PInt 1000000007); ("bridge_mint_fee"%string,
+    PInt 1000000007); ("discover_gas_consumption"%string, PInt 1000000007);
+    ("minter_min_tons_for_storage"%string, PInt 1000000007); ("wallet_gas_consumption"%string, PInt
+    1000000007); ("wallet_min_tons_for_storage"%string, PInt 1000000007)].
+Example C16_JettonBridgePrices_ex :
+  wt spec_table spec_JettonBridgePrices ex_JettonBridgePrices /\
+  match encode spec_table spec_JettonBridgePrices ex_JettonBridgePrices with
+  | Ok (bits, refs) =>
+      run_type impl_table 10 "JettonBridgePrices" [] (Cell (-1) (bits ++ [true; false]) (refs ++ [Cell (-1) [] []]))
+      = Ok (ex_JettonBridgePrices, mkS [true; false] [Cell (-1) [] []])
+  | Err _ => False
+  end.
+Proof. split; [wt_tac|vm_compute; reflexivity]. Qed.
+
+(* ---- ParamLimits ---- *)
+Theorem C16_ParamLimits : forall v tb tr bits refs fuel,
+  wt spec_table spec_ParamLimits v -> encode spec_table spec_ParamLimits v = Ok (bits, refs) -> (25 <= fuel)%nat ->
+  run_type impl_table fuel "ParamLimits" [] (Cell (-1) (bits ++ tb) (refs ++ tr)) = Ok (v, mkS tb tr).
+Proof. exact (C16_generic "ParamLimits" spec_ParamLimits 25 eq_refl eq_refl). Qed.
+Print Assumptions C16_ParamLimits.
+
+Definition ex_ParamLimits : pv :=
+  PObj "ParamLimits" [("hard_limit"%string, PInt 954413); ("soft_limit"%string, PInt 954413);
+    ("underload"%string, PInt 954413)].
+Example C16_ParamLimits_ex :
+  wt spec_table spec_ParamLimits ex_ParamLimits /\
+  match encode spec_table spec_ParamLimits ex_ParamLimits with
+  | Ok (bits, refs) =>
+      run_type impl_table 25 "ParamLimits" [] (Cell (-1) (bits ++ [true; false]) (refs ++ [Cell (-1) [] []]))
+      = Ok (ex_ParamLimits, mkS [true; false] [Cell (-1) [] []])
+  | Err _ => False
+  end.
+Proof. split; [wt_tac|vm_compute; reflexivity]. Qed.
+
+(* ---- ConfigParam16 ---- *)
+Theorem C16_ConfigParam16 : forall v tb tr bits refs fuel,
+  wt spec_table spec_ConfigParam16 v -> encode spec_table spec_ConfigParam16 v = Ok (bits, refs) -> (10 <= fuel)%nat ->
+  run_type impl_table fuel "ConfigParam16" [] (Cell (-1) (bits ++ tb) (refs ++ tr)) = Ok (v, mkS tb tr).
+Proof. exact (C16_generic "ConfigParam16" spec_ConfigParam16 10 eq_refl eq_refl). Qed.
+Print Assumptions C16_ConfigParam16.
+
+Definition ex_ConfigParam16 : pv :=
+  PObj "ConfigParam16" [("max_main_validators"%string, PInt 65535); ("max_validators"%string, PInt
+    65535); ("min_validators"%string, PInt 65535)].
+Example C16_ConfigParam16_ex :
+  wt spec_table spec_ConfigParam16 ex_ConfigParam16 /\
+  match encode spec_table spec_ConfigParam16 ex_ConfigParam16 with
+  | Ok (bits, refs) =>
+      run_type impl_table 10 "ConfigParam16" [] (Cell (-1) (bits ++ [true; false]) (refs ++ [Cell (-1) [] []]))
+      = Ok (ex_ConfigParam16, mkS [true; false] [Cell (-1) [] []])
+  | Err _ => False
+  end.
+Proof. split; [wt_tac|vm_compute; reflexivity]. Qed.
+
+(* ---- ConfigParam0 ---- *)
+Theorem C16_ConfigParam0 : forall v tb tr bits refs fuel,
+  wt spec_table spec_ConfigParam0 v -> encode spec_table spec_ConfigParam0 v = Ok (bits, refs) -> (5 <= fuel)%nat ->
+  run_type impl_table fuel "ConfigParam0" [] (Cell (-1) (bits ++ tb) (refs ++ tr)) = Ok (v, mkS tb tr).
+Proof. exact (C16_generic "ConfigParam0" spec_ConfigParam0 5 eq_refl eq_refl). Qed.
+Print Assumptions C16_ConfigParam0.
+
+Definition ex_ConfigParam0 : pv :=
+  PObj "ConfigParam0" [("config_addr"%string, PBytes [7%N; 14%N; 21%N; 28%N; 35%N; 42%N; 49%N; 56%N;
+    63%N; 70%N; 77%N; 84%N; 91%N; 98%N; 105%N; 112%N; 119%N; 126%N; 133%N; 140%N; 147%N; 154%N; 161%N;
+    168%N; 175%N; 182%N; 189%N; 196%N; 203%N; 210%N; 217%N; 224%N]); ("config_addr_hex"%string, PHex
+    [7%N; 14%N; 21%N; 28%N; 35%N; 42%N; 49%N; 56%N; 63%N; 70%N; 77%N; 84%N; 91%N; 98%N; 105%N; 112%N;
+    119%N; 126%N; 133%N; 140%N; 147%N; 154%N; 161%N; 168%N; 175%N; 182%N; 189%N; 196%N; 203%N; 210%N;
+    217%N; 224%N])].
+Example C16_ConfigParam0_ex :
+  wt spec_table spec_ConfigParam0 ex_ConfigParam0 /\
+  match encode spec_table spec_ConfigParam0 ex_ConfigParam0 with
+  | Ok (bits, refs) =>
+      run_type impl_table 5 "ConfigParam0" [] (Cell (-1) (bits ++ [true; false]) (refs ++ [Cell (-1) [] []]))
+      = Ok (ex_ConfigParam0, mkS [true; false] [Cell (-1) [] []])
+  | Err _ => False
+  end.
+Proof. split; [wt_tac|vm_compute; reflexivity]. Qed.
+
+(* ---- ConfigParam1 ---- *)
+Theorem C16_ConfigParam1 : forall v tb tr bits refs fuel,
+  wt spec_table spec_ConfigParam1 v -> encode spec_table spec_ConfigParam1 v = Ok (bits, refs) -> (5 <= fuel)%nat ->
+  run_type impl_table fuel "ConfigParam1" [] (Cell (-1) (bits ++ tb) (refs ++ tr)) = Ok (v, mkS tb tr).
+Proof. exact (C16_generic "ConfigParam1" spec_ConfigParam1 5 eq_refl eq_refl). Qed.
+Print Assumptions C16_ConfigParam1.
+
+Definition ex_ConfigParam1 : pv :=
+  PObj "ConfigParam1" [("elector_addr"%string, PBytes [7%N; 14%N; 21%N; 28%N; 35%N; 42%N; 49%N; 56%N;
+    63%N; 70%N; 77%N; 84%N; 91%N; 98%N; 105%N; 112%N; 119%N; 126%N; 133%N; 140%N; 147%N; 154%N; 161%N;
+    168%N; 175%N; 182%N; 189%N; 196%N; 203%N; 210%N; 217%N; 224%N]); ("elector_addr_hex"%string, PHex
+    [7%N; 14%N; 21%N; 28%N; 35%N; 42%N; 49%N; 56%N; 63%N; 70%N; 77%N; 84%N; 91%N; 98%N; 105%N; 112%N;
+    119%N; 126%N; 133%N; 140%N; 147%N; 154%N; 161%N; 168%N; 175%N; 182%N; 189%N; 196%N; 203%N; 210%N;
+    217%N; 224%N])].
+Example C16_ConfigParam1_ex :
+  wt spec_table spec_ConfigParam1 ex_ConfigParam1 /\
+  match encode spec_table spec_ConfigParam1 ex_ConfigParam1 with
+  | Ok (bits, refs) =>
+      run_type impl_table 5 "ConfigParam1" [] (Cell (-1) (bits ++ [true; false]) (refs ++ [Cell (-1) [] []]))
+      = Ok (ex_ConfigParam1, mkS [true; false] [Cell (-1) [] []])
+  | Err _ => False
+  end.
+Proof. split; [wt_tac|vm_compute; reflexivity]. Qed.
+
+(* ---- ConfigParam2 ---- *)
+Theorem C16_ConfigParam2 : forall v tb tr bits refs fuel,
+  wt spec_table spec_ConfigParam2 v -> encode spec_table spec_ConfigParam2 v = Ok (bits, refs) -> (5 <= fuel)%nat ->
+  run_type impl_table fuel "ConfigParam2" [] (Cell (-1) (bits ++ tb) (refs ++ tr)) = Ok (v, mkS tb tr).
+Proof. exact (C16_generic "ConfigParam2" spec_ConfigParam2 5 eq_refl eq_refl). Qed.
+Print Assumptions C16_ConfigParam2.
+
+Definition ex_ConfigParam2 : pv :=
+  PObj "ConfigParam2" [("minter_addr"%string, PBytes [7%N; 14%N; 21%N; 28%N; 35%N; 42%N; 49%N; 56%N;
+    63%N; 70%N; 77%N; 84%N; 91%N; 98%N; 105%N; 112%N; 119%N; 126%N; 133%N; 140%N; 147%N; 154%N; 161%N;
+    168%N; 175%N; 182%N; 189%N; 196%N; 203%N; 210%N; 217%N; 224%N]); ("minter_addr_hex"%string, PHex
+    [7%N; 14%N; 21%N; 28%N; 35%N; 42%N; 49%N; 56%N; 63%N; 70%N; 77%N; 84%N; 91%N; 98%N; 105%N; 112%N;
+    119%N; 126%N; 133%N; 140%N; 147%N; 154%N; 161%N; 168%N; 175%N; 182%N; 189%N; 196%N; 203%N; 210%N;
+    217%N; 224%N])].
+Example C16_ConfigParam2_ex :
+  wt spec_table spec_ConfigParam2 ex_ConfigParam2 /\
+  match encode spec_table spec_ConfigParam2 ex_ConfigParam2 with
+  | Ok (bits, refs) =>
+      run_type impl_table 5 "ConfigParam2" [] (Cell (-1) (bits ++ [true; false]) (refs ++ [Cell (-1) [] []]))
+      = Ok (ex_ConfigParam2, mkS [true; false] [Cell (-1) [] []])
+  | Err _ => False
+  end.
+Proof. split; [wt_tac|vm_compute; reflexivity]. Qed.
+
+(* ---- ConfigParam3 ---- *)
+Theorem C16_ConfigParam3 : forall v tb tr bits refs fuel,
+  wt spec_table spec_ConfigParam3 v -> encode spec_table spec_ConfigParam3 v = Ok (bits, refs) -> (5 <= fuel)%nat ->
+  run_type impl_table fuel "ConfigParam3" [] (Cell (-1) (bits ++ tb) (refs ++ tr)) = Ok (v, mkS tb tr).
+Proof. exact (C16_generic "ConfigParam3" spec_ConfigParam3 5 eq_refl eq_refl). Qed.
+Print Assumptions C16_ConfigParam3.
+
+Definition ex_ConfigParam3 : pv :=
+  PObj "ConfigParam3" [("fee_collector_addr"%string, PBytes [7%N; 14%N; 21%N; 28%N; 35%N; 42%N; 49%N;
+    56%N; 63%N; 70%N; 77%N; 84%N; 91%N; 98%N; 105%N; 112%N; 119%N; 126%N; 133%N; 140%N; 147%N; 154%N;
+    161%N; 168%N; 175%N; 182%N; 189%N; 196%N; 203%N; 210%N; 217%N; 224%N]);
+    ("fee_collector_addr_hex"%string, PHex [7%N; 14%N; 21%N; 28%N; 35%N; 42%N; 49%N; 56%N; 63%N; 70%N;
+    77%N; 84%N; 91%N; 98%N; 105%N; 112%N; 119%N; 126%N; 133%N; 140%N; 147%N; 154%N; 161%N; 168%N; 175%N;
+    182%N; 189%N; 196%N; 203%N; 210%N; 217%N; 224%N])].
+Example C16_ConfigParam3_ex :
+  wt spec_table spec_ConfigParam3 ex_ConfigParam3 /\
+  match encode spec_table spec_ConfigParam3 ex_ConfigParam3 with
+  | Ok (bits, refs) =>
+      run_type impl_table 5 "ConfigParam3" [] (Cell (-1) (bits ++ [true; false]) (refs ++ [Cell (-1) [] []]))
+      = Ok (ex_ConfigParam3, mkS [true; false] [Cell (-1) [] []])
+  | Err _ => False
+  end.
+Proof. split; [wt_tac|vm_compute; reflexivity]. Qed.
+
+(* ---- ConfigParam4 ---- *)
+Theorem C16_ConfigParam4 : forall v tb tr bits refs fuel,
+  wt spec_table spec_ConfigParam4 v -> encode spec_table spec_ConfigParam4 v = Ok (bits, refs) -> (5 <= fuel)%nat ->
+  run_type impl_table fuel "ConfigParam4" [] (Cell (-1) (bits ++ tb) (refs ++ tr)) = Ok (v, mkS tb tr).
+Proof. exact (C16_generic "ConfigParam4" spec_ConfigParam4 5 eq_refl eq_refl). Qed.
+Print Assumptions C16_ConfigParam4.
+
+Definition ex_ConfigParam4 : pv :=
+  PObj "ConfigParam4" [("dns_root_addr"%string, PBytes [7%N; 14%N; 21%N; 28%N; 35%N; 42%N; 49%N; 56%N;
+    63%N; 70%N; 77%N; 84%N; 91%N; 98%N; 105%N; 112%N; 119%N; 126%N; 133%N; 140%N; 147%N; 154%N; 161%N;
+    168%N; 175%N; 182%N; 189%N; 196%N; 203%N; 210%N; 217%N; 224%N]); ("dns_root_addr_hex"%string, PHex
+    [7%N; 14%N; 21%N; 28%N; 35%N; 42%N; 49%N; 56%N; 63%N; 70%N; 77%N; 84%N; 91%N; 98%N; 105%N; 112%N;
+    119%N; 126%N; 133%N; 140%N; 147%N; 154%N; 161%N; 168%N; 175%N; 182%N; 189%N; 196%N; 203%N; 210%N;
+    217%N; 224%N])].
+Example C16_ConfigParam4_ex :
+  wt spec_table spec_ConfigParam4 ex_ConfigParam4 /\
+  match encode spec_table spec_ConfigParam4 ex_ConfigParam4 with
+  | Ok (bits, refs) =>
+      run_type impl_table 5 "ConfigParam4" [] (Cell (-1) (bits ++ [true; false]) (refs ++ [Cell (-1) [] []]))
+      = Ok (ex_ConfigParam4, mkS [true; false] [Cell (-1) [] []])
+  | Err _ => False
+  end.
+Proof. split; [wt_tac|vm_compute; reflexivity]. Qed.
+
+(* ---- ConfigParam8 ---- *)
+Theorem C16_ConfigParam8 : forall v tb tr bits refs fuel,
+  wt spec_table spec_ConfigParam8 v -> encode spec_table spec_ConfigParam8 v = Ok (bits, refs) -> (27 <= fuel)%nat ->
+  run_type impl_table fuel "ConfigParam8" [] (Cell (-1) (bits ++ tb) (refs ++ tr)) = Ok (v, mkS tb tr).
+Proof. exact (C16_generic "ConfigParam8" spec_ConfigParam8 27 eq_refl eq_refl). Qed.
+Print Assumptions C16_ConfigParam8.
+
+Definition ex_ConfigParam8 : pv :=
+  PObj "GlobalVersion" [("capabilities"%string, PInt 350686); ("version"%string, PInt 954413)].
+Example C16_ConfigParam8_ex :
+  wt spec_table spec_ConfigParam8 ex_ConfigParam8 /\
+  match encode spec_table spec_ConfigParam8 ex_ConfigParam8 with
+  | Ok (bits, refs) =>
+      run_type impl_table 27 "ConfigParam8" [] (Cell (-1) (bits ++ [true; false]) (refs ++ [Cell (-1) [] []]))
+      = Ok (ex_ConfigParam8, mkS [true; false] [Cell (-1) [] []])
+  | Err _ => False
+  end.
+Proof. split; [wt_tac|vm_compute; reflexivity]. Qed.
+
+(* ---- ConfigParam11 ---- *)
+Theorem C16_ConfigParam11 : forall v tb tr bits refs fuel,
+  wt spec_table spec_ConfigParam11 v -> encode spec_table spec_ConfigParam11 v = Ok (bits, refs) -> (85 <= fuel)%nat ->
+  run_type impl_table fuel "ConfigParam11" [] (Cell (-1) (bits ++ tb) (refs ++ tr)) = Ok (v, mkS tb tr).
+Proof. exact (C16_generic "ConfigParam11" spec_ConfigParam11 85 eq_refl eq_refl). Qed.
+Print Assumptions C16_ConfigParam11.
+
+Definition ex_ConfigParam11 : pv :=
+  PObj "ConfigVotingSetup" [("critical_params"%string, PObj "ConfigProposalSetup" [("bit_price"%string,
+    PInt 954413); ("cell_price"%string, PInt 954413); ("max_losses"%string, PInt 255);
+    ("max_store_sec"%string, PInt 954413); ("max_tot_rounds"%string, PInt 255); ("min_store_sec"%string,
+    PInt 954413); ("min_tot_rounds"%string, PInt 255); ("min_wins"%string, PInt 255)]);
+    ("normal_params"%string, PObj "ConfigProposalSetup" [("bit_price"%string, PInt 954413);
+    ("cell_price"%string, PInt 954413); ("max_losses"%string, PInt 255); ("max_store_sec"%string, PInt
+    954413); ("max_tot_rounds"%string, PInt 255); ("min_store_sec"%string, PInt 954413);
+    ("min_tot_rounds"%string, PInt 255); ("min_wins"%string, PInt 255)])].
+Example C16_ConfigParam11_ex :
+  wt spec_table spec_ConfigParam11 ex_ConfigParam11 /\
+  match encode spec_table spec_ConfigParam11 ex_ConfigParam11 with
+  | Ok (bits, refs) =>
+      run_type impl_table 85 "ConfigParam11" [] (Cell (-1) (bits ++ [true; false]) (refs ++ [Cell (-1) [] []]))
+      = Ok (ex_ConfigParam11, mkS [true; false] [Cell (-1) [] []])
+  | Err _ => False
+  end.
+Proof. split; [wt_tac|vm_compute; reflexivity]. Qed.
+
+(* ---- ConfigParam13 ---- *)
+Theorem C16_ConfigParam13 : forall v tb tr bits refs fuel,
+  wt spec_table spec_ConfigParam13 v -> encode spec_table spec_ConfigParam13 v = Ok (bits, refs) -> (28 <= fuel)%nat ->
+  run_type impl_table fuel "ConfigParam13" [] (Cell (-1) (bits ++ tb) (refs ++ tr)) = Ok (v, mkS tb tr).
+Proof. exact (C16_generic "ConfigParam13" spec_ConfigParam13 28 eq_refl eq_refl). Qed.
+Print Assumptions C16_ConfigParam13.
+
+Definition ex_ConfigParam13 : pv :=
+  PObj "ComplaintPricing" [("bit_price"%string, PInt 1000000007); ("cell_price"%string, PInt
+    1000000007); ("deposit"%string, PInt 1000000007)].
+Example C16_ConfigParam13_ex :
+  wt spec_table spec_ConfigParam13 ex_ConfigParam13 /\
+  match encode spec_table spec_ConfigParam13 ex_ConfigParam13 with
+  | Ok (bits, refs) =>
+      run_type impl_table 28 "ConfigParam13" [] (Cell (-1) (bits ++ [true; false]) (refs ++ [Cell (-1) [] []]))
+      = Ok (ex_ConfigParam13, mkS [true; false] [Cell (-1) [] []])
+  | Err _ => False
+  end.
+Proof. split; [wt_tac|vm_compute; reflexivity]. Qed.
+
+(* ---- ConfigParam14 ---- *)
+Theorem C16_ConfigParam14 : forall v tb tr bits refs fuel,
+  wt spec_table spec_ConfigParam14 v -> encode spec_table spec_ConfigParam14 v = Ok (bits, refs) -> (27 <= fuel)%nat ->
+  run_type impl_table fuel "ConfigParam14" [] (Cell (-1) (bits ++ tb) (refs ++ tr)) = Ok (v, mkS tb tr).
+Proof. exact (C16_generic "ConfigParam14" spec_ConfigParam14 27 eq_refl eq_refl). Qed.
+Print Assumptions C16_ConfigParam14.
+
+Definition ex_ConfigParam14 : pv :=
+  PObj "BlockCreateFees" [("basechain_block_fee"%string, PInt 1000000007);
+    ("masterchain_block_fee"%string, PInt 1000000007)].
+Example C16_ConfigParam14_ex :
+  wt spec_table spec_ConfigParam14 ex_ConfigParam14 /\
+  match encode spec_table spec_ConfigParam14 ex_ConfigParam14 with
+  | Ok (bits, refs) =>
+      run_type impl_table 27 "ConfigParam14" [] (Cell (-1) (bits ++ [true; false]) (refs ++ [Cell (-1) [] []]))
+      = Ok (ex_ConfigParam14, mkS [true; false] [Cell (-1) [] []])
+  | Err _ => False
+  end.
+Proof. split; [wt_tac|vm_compute; reflexivity]. Qed.
+
+(* ---- ConfigParam22 ---- *)
+Theorem C16_ConfigParam22 : forall v tb tr bits refs fuel,
+  wt spec_table spec_ConfigParam22 v -> encode spec_table spec_ConfigParam22 v = Ok (bits, refs) -> (103 <= fuel)%nat ->
+  run_type impl_table fuel "ConfigParam22" [] (Cell (-1) (bits ++ tb) (refs ++ tr)) = Ok (v, mkS tb tr).
+Proof. exact (C16_generic "ConfigParam22" spec_ConfigParam22 103 eq_refl eq_refl). Qed.
+Print Assumptions C16_ConfigParam22.
+
+Definition ex_ConfigParam22 : pv :=
+  PObj "BlockLimits" [("bytes"%string, PObj "ParamLimits" [("hard_limit"%string, PInt 954413);
+    ("soft_limit"%string, PInt 954413); ("underload"%string, PInt 954413)]); ("gas"%string, PObj
+    "ParamLimits" [("hard_limit"%string, PInt 954413); ("soft_limit"%string, PInt 954413);
+    ("underload"%string, PInt 954413)]); ("lt_delta"%string, PObj "ParamLimits" [("hard_limit"%string,
+    PInt 954413); ("soft_limit"%string, PInt 954413); ("underload"%string, PInt 954413)])].
+Example C16_ConfigParam22_ex :
+  wt spec_table spec_ConfigParam22 ex_ConfigParam22 /\
+  match encode spec_table spec_ConfigParam22 ex_ConfigParam22 with
+  | Ok (bits, refs) =>
+      run_type impl_table 103 "ConfigParam22" [] (Cell (-1) (bits ++ [true; false]) (refs ++ [Cell (-1) [] []]))
+      = Ok (ex_ConfigParam22, mkS [true; false] [Cell (-1) [] []])
+  | Err _ => False
+  end.
+Proof. split; [wt_tac|vm_compute; reflexivity]. Qed.
+
+(* ---- ConfigParam23 ---- *)
+Theorem C16_ConfigParam23 : forall v tb tr bits refs fuel,
+  wt spec_table spec_ConfigParam23 v -> encode spec_table spec_ConfigParam23 v = Ok (bits, refs) -> (103 <= fuel)%nat ->
+  run_type impl_table fuel "ConfigParam23" [] (Cell (-1) (bits ++ tb) (refs ++ tr)) = Ok (v, mkS tb tr).
+Proof. exact (C16_generic "ConfigParam23" spec_ConfigParam23 103 eq_refl eq_refl). Qed.
+Print Assumptions C16_ConfigParam23.
+
+Definition ex_ConfigParam23 : pv :=
+  PObj "BlockLimits" [("bytes"%string, PObj "ParamLimits" [("hard_limit"%string, PInt 954413);
+    ("soft_limit"%string, PInt 954413); ("underload"%string, PInt 954413)]); ("gas"%string, PObj
+    "ParamLimits" [("hard_limit"%string, PInt 954413); ("soft_limit"%string, PInt 954413);
+    ("underload"%string, PInt 954413)]); ("lt_delta"%string, PObj "ParamLimits" [("hard_limit"%string,
+    PInt 954413); ("soft_limit"%string, PInt 954413); ("underload"%string, PInt 954413)])].
+Example C16_ConfigParam23_ex :
+  wt spec_table spec_ConfigParam23 ex_ConfigParam23 /\
+  match encode spec_table spec_ConfigParam23 ex_ConfigParam23 with
+  | Ok (bits, refs) =>
+      run_type impl_table 103 "ConfigParam23" [] (Cell (-1) (bits ++ [true; false]) (refs ++ [Cell (-1) [] []]))
+      = Ok (ex_ConfigParam23, mkS [true; false] [Cell (-1) [] []])
+  | Err _ => False
+  end.
+Proof. split; [wt_tac|vm_compute; reflexivity]. Qed.
+
+(* ---- ConfigParam24 ---- *)
+Theorem C16_ConfigParam24 : forall v tb tr bits refs fuel,
+  wt spec_table spec_ConfigParam24 v -> encode spec_table spec_ConfigParam24 v = Ok (bits, refs) -> (31 <= fuel)%nat ->
+  run_type impl_table fuel "ConfigParam24" [] (Cell (-1) (bits ++ tb) (refs ++ tr)) = Ok (v, mkS tb tr).
+Proof. exact (C16_generic "ConfigParam24" spec_ConfigParam24 31 eq_refl eq_refl). Qed.
+Print Assumptions C16_ConfigParam24.
+
+Definition ex_ConfigParam24 : pv :=
+  PObj "MsgForwardPrices" [("bit_price"%string, PInt 350686); ("cell_price"%string, PInt 350686);
+    ("first_frac"%string, PInt 65535); ("ihr_price_factor"%string, PInt 954413); ("lump_price"%string,
+    PInt 350686); ("next_frac"%string, PInt 65535)].
+Example C16_ConfigParam24_ex :
+  wt spec_table spec_ConfigParam24 ex_ConfigParam24 /\
+  match encode spec_table spec_ConfigParam24 ex_ConfigParam24 with
+  | Ok (bits, refs) =>
+      run_type impl_table 31 "ConfigParam24" [] (Cell (-1) (bits ++ [true; false]) (refs ++ [Cell (-1) [] []]))
+      = Ok (ex_ConfigParam24, mkS [true; false] [Cell (-1) [] []])
+  | Err _ => False
+  end.
+Proof. split; [wt_tac|vm_compute; reflexivity]. Qed.
+
+(* ---- ConfigParam25 ---- *)
+Theorem C16_ConfigParam25 : forall v tb tr bits refs fuel,
+  wt spec_table spec_ConfigParam25 v -> encode spec_table spec_ConfigParam25 v = Ok (bits, refs) -> (31 <= fuel)%nat ->
+  run_type impl_table fuel "ConfigParam25" [] (Cell (-1) (bits ++ tb) (refs ++ tr)) = Ok (v, mkS tb tr).
+Proof. exact (C16_generic "ConfigParam25" spec_ConfigParam25 31 eq_refl eq_refl). Qed.
+Print Assumptions C16_ConfigParam25.
+
+Definition ex_ConfigParam25 : pv :=
+  PObj "MsgForwardPrices" [("bit_price"%string, PInt 350686); ("cell_price"%string, PInt 350686);
+    ("first_frac"%string, PInt 65535); ("ihr_price_factor"%string, PInt 954413); ("lump_price"%string,
+    PInt 350686); ("next_frac"%string, PInt 65535)].
+Example C16_ConfigParam25_ex :
+  wt spec_table spec_ConfigParam25 ex_ConfigParam25 /\
+  match encode spec_table spec_ConfigParam25 ex_ConfigParam25 with
+  | Ok (bits, refs) =>
+      run_type impl_table 31 "ConfigParam25" [] (Cell (-1) (bits ++ [true; false]) (refs ++ [Cell (-1) [] []]))
+      = Ok (ex_ConfigParam25, mkS [true; false] [Cell (-1) [] []])
+  | Err _ => False
+  end.
+Proof. split; [wt_tac|vm_compute; reflexivity]. Qed.
+
+(* ---- ConfigParam28 ---- *)
+Theorem C16_ConfigParam28 : forall v tb tr bits refs fuel,
+  wt spec_table spec_ConfigParam28 v -> encode spec_table spec_ConfigParam28 v = Ok (bits, refs) -> (38 <= fuel)%nat ->
+  run_type impl_table fuel "ConfigParam28" [] (Cell (-1) (bits ++ tb) (refs ++ tr)) = Ok (v, mkS tb tr).
+Proof. exact (C16_generic "ConfigParam28" spec_ConfigParam28 38 eq_refl eq_refl). Qed.
+Print Assumptions C16_ConfigParam28.
+
+Definition ex_ConfigParam28 : pv :=
+  PObj "CatchainConfig" [("mc_catchain_lifetime"%string, PInt 954413);
+    ("shard_catchain_lifetime"%string, PInt 954413); ("shard_validators_lifetime"%string, PInt 954413);
+    ("shard_validators_num"%string, PInt 954413); ("shuffle_mc_validators"%string, PBool true);
+    ("type_"%string, PStr "catchain_config_new")].
+Example C16_ConfigParam28_ex :
+  wt spec_table spec_ConfigParam28 ex_ConfigParam28 /\
+  match encode spec_table spec_ConfigParam28 ex_ConfigParam28 with
+  | Ok (bits, refs) =>
+      run_type impl_table 38 "ConfigParam28" [] (Cell (-1) (bits ++ [true; false]) (refs ++ [Cell (-1) [] []]))
+      = Ok (ex_ConfigParam28, mkS [true; false] [Cell (-1) [] []])
+  | Err _ => False
+  end.
+Proof. split; [wt_tac|vm_compute; reflexivity]. Qed.
+
+(* ---- ConfigParam31 ---- *)
+Theorem C16_ConfigParam31 : forall v tb tr bits refs fuel,
+  wt spec_table spec_ConfigParam31 v -> encode spec_table spec_ConfigParam31 v = Ok (bits, refs) -> (7 <= fuel)%nat ->
+  run_type impl_table fuel "ConfigParam31" [] (Cell (-1) (bits ++ tb) (refs ++ tr)) = Ok (v, mkS tb tr).
+Proof. exact (C16_generic "ConfigParam31" spec_ConfigParam31 7 eq_refl eq_refl). Qed.
+Print Assumptions C16_ConfigParam31.
+
+Definition ex_ConfigParam31 : pv :=
+  PObj "ConfigParam31" [("fundamental_smc_addr"%string, PDict [(3, PBool true); (10, PBool true); (11,
+    PBool true)])].
+Example C16_ConfigParam31_ex :
+  wt spec_table spec_ConfigParam31 ex_ConfigParam31 /\
+  match encode spec_table spec_ConfigParam31 ex_ConfigParam31 with
+  | Ok (bits, refs) =>
+      run_type impl_table 7 "ConfigParam31" [] (Cell (-1) (bits ++ [true; false]) (refs ++ [Cell (-1) [] []]))
+      = Ok (ex_ConfigParam31, mkS [true; false] [Cell (-1) [] []])
+  | Err _ => False
+  end.
+Proof. split; [wt_tac|vm_compute; reflexivity]. Qed.
+
+(* ---- ConfigParam44 ---- *)
+Theorem C16_ConfigParam44 : forall v tb tr bits refs fuel,
+  wt spec_table spec_ConfigParam44 v -> encode spec_table spec_ConfigParam44 v = Ok (bits, refs) -> (29 <= fuel)%nat ->
+  run_type impl_table fuel "ConfigParam44" [] (Cell (-1) (bits ++ tb) (refs ++ tr)) = Ok (v, mkS tb tr).
+Proof. exact (C16_generic "ConfigParam44" spec_ConfigParam44 29 eq_refl eq_refl). Qed.
+Print Assumptions C16_ConfigParam44.
+
+Definition ex_ConfigParam44 : pv :=
+  PObj "SuspendedAddressList" [("addresses"%string, PDict [(3, PNone); (10, PNone); (11, PNone)]);
+    ("suspended_until"%string, PInt 954413)].
+Example C16_ConfigParam44_ex :
+  wt spec_table spec_ConfigParam44 ex_ConfigParam44 /\
+  match encode spec_table spec_ConfigParam44 ex_ConfigParam44 with
+  | Ok (bits, refs) =>
+      run_type impl_table 29 "ConfigParam44" [] (Cell (-1) (bits ++ [true; false]) (refs ++ [Cell (-1) [] []]))
+      = Ok (ex_ConfigParam44, mkS [true; false] [Cell (-1) [] []])
+  | Err _ => False
+  end.
+Proof. split; [wt_tac|vm_compute; reflexivity]. Qed.
+
+(* ---- ConfigParam71 ---- *)
+Theorem C16_ConfigParam71 : forall v tb tr bits refs fuel,
+  wt spec_table spec_ConfigParam71 v -> encode spec_table spec_ConfigParam71 v = Ok (bits, refs) -> (16 <= fuel)%nat ->
+  run_type impl_table fuel "ConfigParam71" [] (Cell (-1) (bits ++ tb) (refs ++ tr)) = Ok (v, mkS tb tr).
+Proof. exact (C16_generic "ConfigParam71" spec_ConfigParam71 16 eq_refl eq_refl). Qed.
+Print Assumptions C16_ConfigParam71.
+
+Definition ex_ConfigParam71 : pv :=
+  PObj "OracleBridgeParams" [("bridge_address"%string, PBytes [7%N; 14%N; 21%N; 28%N; 35%N; 42%N; 49%N;
+    56%N; 63%N; 70%N; 77%N; 84%N; 91%N; 98%N; 105%N; 112%N; 119%N; 126%N; 133%N; 140%N; 147%N; 154%N;
+    161%N; 168%N; 175%N; 182%N; 189%N; 196%N; 203%N; 210%N; 217%N; 224%N]);
+    ("bridge_address_hex"%string, PHex [7%N; 14%N; 21%N; 28%N; 35%N; 42%N; 49%N; 56%N; 63%N; 70%N; 77%N;
+    84%N; 91%N; 98%N; 105%N; 112%N; 119%N; 126%N; 133%N; 140%N; 147%N; 154%N; 161%N; 168%N; 175%N;
+    182%N; 189%N; 196%N; 203%N; 210%N; 217%N; 224%N]); ("external_chain_address_hex"%string, PHex [7%N;
+    14%N; 21%N; 28%N; 35%N; 42%N; 49%N; 56%N; 63%N; 70%N; 77%N; 84%N; 91%N; 98%N; 105%N; 112%N; 119%N;
+    126%N; 133%N; 140%N; 147%N; 154%N; 161%N; 168%N; 175%N; 182%N; 189%N; 196%N; 203%N; 210%N; 217%N;
+    224%N]); ("oracle_mutlisig_address"%string, PBytes [7%N; 14%N; 21%N; 28%N; 35%N; 42%N; 49%N; 56%N;
+    63%N; 70%N; 77%N; 84%N; 91%N; 98%N; 105%N; 112%N; 119%N; 126%N; 133%N; 140%N; 147%N; 154%N; 161%N;
+    168%N; 175%N; 182%N; 189%N; 196%N; 203%N; 210%N; 217%N; 224%N]);
+    ("oracle_mutlisig_address_hex"%string, PHex [7%N; 14%N; 21%N; 28%N; 35%N; 42%N; 49%N; 56%N; 63%N;
+    70%N; 77%N; 84%N; 91%N; 98%N; 105%N; 112%N; 119%N; 126%N; 133%N; 140%N; 147%N; 154%N; 161%N; 168%N;
+    175%N; 182%N; 189%N; 196%N; 203%N; 210%N; 217%N; 224%N]); ("oracles"%string, PDict [(3, PInt
+    156648); (10, PInt 156648); (11, PInt 156648)])].
+Example C16_ConfigParam71_ex :
+  wt spec_table spec_ConfigParam71 ex_ConfigParam71 /\
+  match encode spec_table spec_ConfigParam71 ex_ConfigParam71 with
+  | Ok (bits, refs) =>
+      run_type impl_table 16 "ConfigParam71" [] (Cell (-1) (bits ++ [true; false]) (refs ++ [Cell (-1) [] []]))
+      = Ok (ex_ConfigParam71, mkS [true; false] [Cell (-1) [] []])
+  | Err _ => False
+  end.
+Proof. split; [wt_tac|vm_compute; reflexivity]. Qed.
+
+(* ---- ConfigParam72 ---- *)
+Theorem C16_ConfigParam72 : forall v tb tr bits refs fuel,
+  wt spec_table spec_ConfigParam72 v -> encode spec_table spec_ConfigParam72 v = Ok (bits, refs) -> (16 <= fuel)%nat ->
+  run_type impl_table fuel "ConfigParam72" [] (Cell (-1) (bits ++ tb) (refs ++ tr)) = Ok (v, mkS tb tr).
+Proof. exact (C16_generic "ConfigParam72" spec_ConfigParam72 16 eq_refl eq_refl). Qed.
+Print Assumptions C16_ConfigParam72.
+
+Definition ex_ConfigParam72 : pv :=
+  PObj "OracleBridgeParams" [("bridge_address"%string, PBytes [7%N; 14%N; 21%N; 28%N; 35%N; 42%N; 49%N;
+    56%N; 63%N; 70%N; 77%N; 84%N; 91%N; 98%N; 105%N; 112%N; 119%N; 126%N; 133%N; 140%N; 147%N; 154%N;
+    161%N; 168%N; 175%N; 182%N; 189%N; 196%N; 203%N; 210%N; 217%N; 224%N]);
+    ("bridge_address_hex"%string, PHex [7%N; 14%N; 21%N; 28%N; 35%N; 42%N; 49%N; 56%N; 63%N; 70%N; 77%N;
+    84%N; 91%N; 98%N; 105%N; 112%N; 119%N; 126%N; 133%N; 140%N; 147%N; 154%N; 161%N; 168%N; 175%N;
+    182%N; 189%N; 196%N; 203%N; 210%N; 217%N; 224%N]); ("external_chain_address_hex"%string, PHex [7%N;
+    14%N; 21%N; 28%N; 35%N; 42%N; 49%N; 56%N; 63%N; 70%N; 77%N; 84%N; 91%N; 98%N; 105%N; 112%N; 119%N;
+    126%N; 133%N; 140%N; 147%N; 154%N; 161%N; 168%N; 175%N; 182%N; 189%N; 196%N; 203%N; 210%N; 217%N;
+    224%N]); ("oracle_mutlisig_address"%string, PBytes [7%N; 14%N; 21%N; 28%N; 35%N; 42%N; 49%N; 56%N;
+    63%N; 70%N; 77%N; 84%N; 91%N; 98%N; 105%N; 112%N; 119%N; 126%N; 133%N; 140%N; 147%N; 154%N; 161%N;
+    168%N; 175%N; 182%N; 189%N; 196%N; 203%N; 210%N; 217%N; 224%N]);
+    ("oracle_mutlisig_address_hex"%string, PHex [7%N; 14%N; 21%N; 28%N; 35%N; 42%N; 49%N; 56%N; 63%N;
+    70%N; 77%N; 84%N; 91%N; 98%N; 105%N; 112%N; 119%N; 126%N; 133%N; 140%N; 147%N; 154%N; 161%N; 168%N;
+    175%N; 182%N; 189%N; 196%N; 203%N; 210%N; 217%N; 224%N]); ("oracles"%string, PDict [(3, PInt
+    156648); (10, PInt 156648); (11, PInt 156648)])].
+Example C16_ConfigParam72_ex :
+  wt spec_table spec_ConfigParam72 ex_ConfigParam72 /\
+  match encode spec_table spec_ConfigParam72 ex_ConfigParam72 with
+  | Ok (bits, refs) =>
+      run_type impl_table 16 "ConfigParam72" [] (Cell (-1) (bits ++ [true; false]) (refs ++ [Cell (-1) [] []]))
+      = Ok (ex_ConfigParam72, mkS [true; false] [Cell (-1) [] []])
+  | Err _ => False
+  end.
+Proof. split; [wt_tac|vm_compute; reflexivity]. Qed.
+
+(* ---- ConfigParam73 ---- *)
+Theorem C16_ConfigParam73 : forall v tb tr bits refs fuel,
+  wt spec_table spec_ConfigParam73 v -> encode spec_table spec_ConfigParam73 v = Ok (bits, refs) -> (16 <= fuel)%nat ->
+  run_type impl_table fuel "ConfigParam73" [] (Cell (-1) (bits ++ tb) (refs ++ tr)) = Ok (v, mkS tb tr).
+Proof. exact (C16_generic "ConfigParam73" spec_ConfigParam73 16 eq_refl eq_refl). Qed.
+Print Assumptions C16_ConfigParam73.
+
+Definition ex_ConfigParam73 : pv :=
+  PObj "OracleBridgeParams" [("bridge_address"%string, PBytes [7%N; 14%N; 21%N; 28%N; 35%N; 42%N; 49%N;
+    56%N; 63%N; 70%N; 77%N; 84%N; 91%N; 98%N; 105%N; 112%N; 119%N; 126%N; 133%N; 140%N; 147%N; 154%N;
+    161%N; 168%N; 175%N; 182%N; 189%N; 196%N; 203%N; 210%N; 217%N; 224%N]);
+    ("bridge_address_hex"%string, PHex [7%N; 14%N; 21%N; 28%N; 35%N; 42%N; 49%N; 56%N; 63%N; 70%N; 77%N;
+    84%N; 91%N; 98%N; 105%N; 112%N; 119%N; 126%N; 133%N; 140%N; 147%N; 154%N; 161%N; 168%N; 175%N;
+    182%N; 189%N; 196%N; 203%N; 210%N; 217%N; 224%N]); ("external_chain_address_hex"%string, PHex [7%N;
+    14%N; 21%N; 28%N; 35%N; 42%N; 49%N; 56%N; 63%N; 70%N; 77%N; 84%N; 91%N; 98%N; 105%N; 112%N; 119%N;
+    126%N; 133%N; 140%N; 147%N; 154%N; 161%N; 168%N; 175%N; 182%N; 189%N; 196%N; 203%N; 210%N; 217%N;
+    224%N]); ("oracle_mutlisig_address"%string, PBytes [7%N; 14%N; 21%N; 28%N; 35%N; 42%N; 49%N; 56%N;
+    63%N; 70%N; 77%N; 84%N; 91%N; 98%N; 105%N; 112%N; 119%N; 126%N; 133%N; 140%N; 147%N; 154%N; 161%N;
+    168%N; 175%N; 182%N; 189%N; 196%N; 203%N; 210%N; 217%N; 224%N]);
+    ("oracle_mutlisig_address_hex"%string, PHex [7%N; 14%N; 21%N; 28%N; 35%N; 42%N; 49%N; 56%N; 63%N;
+    70%N; 77%N; 84%N; 91%N; 98%N; 105%N; 112%N; 119%N; 126%N; 133%N; 140%N; 147%N; 154%N; 161%N; 168%N;
+    175%N; 182%N; 189%N; 196%N; 203%N; 210%N; 217%N; 224%N]); ("oracles"%string, PDict [(3, PInt
+    156648); (10, PInt 156648); (11, PInt 156648)])].
+Example C16_ConfigParam73_ex :
+  wt spec_table spec_ConfigParam73 ex_ConfigParam73 /\
+  match encode spec_table spec_ConfigParam73 ex_ConfigParam73 with
+  | Ok (bits, refs) =>
+      run_type impl_table 16 "ConfigParam73" [] (Cell (-1) (bits ++ [true; false]) (refs ++ [Cell (-1) [] []]))
+      = Ok (ex_ConfigParam73, mkS [true; false] [Cell (-1) [] []])
+  | Err _ => False
+  end.
+Proof. split; [wt_tac|vm_compute; reflexivity]. Qed.
+
+(* ---- SuspendedAddressList ---- *)
+Theorem C16_SuspendedAddressList : forall v tb tr bits refs fuel,
+  wt spec_table spec_SuspendedAddressList v -> encode spec_table spec_SuspendedAddressList v = Ok (bits, refs) -> (24 <= fuel)%nat ->
+  run_type impl_table fuel "SuspendedAddressList" [] (Cell (-1) (bits ++ tb) (refs ++ tr)) = Ok (v, mkS tb tr).
+Proof. exact (C16_generic "SuspendedAddressList" spec_SuspendedAddressList 24 eq_refl eq_refl). Qed.
+Print Assumptions C16_SuspendedAddressList.
+
+Definition ex_SuspendedAddressList : pv :=
+  PObj "SuspendedAddressList" [("addresses"%string, PDict [(3, PNone); (10, PNone); (11, PNone)]);
+    ("suspended_until"%string, PInt 954413)].
+Example C16_SuspendedAddressList_ex :
+  wt spec_table spec_SuspendedAddressList ex_SuspendedAddressList /\
+  match encode spec_table spec_SuspendedAddressList ex_SuspendedAddressList with
+  | Ok (bits, refs) =>
+      run_type impl_table 24 "SuspendedAddressList" [] (Cell (-1) (bits ++ [true; false]) (refs ++ [Cell (-1) [] []]))
+      = Ok (ex_SuspendedAddressList, mkS [true; false] [Cell (-1) [] []])
+  | Err _ => False
+  end.
+Proof. split; [wt_tac|vm_compute; reflexivity]. Qed.
+
+(* ---- OracleBridgeParams ---- *)
+Theorem C16_OracleBridgeParams : forall v tb tr bits refs fuel,
+  wt spec_table spec_OracleBridgeParams v -> encode spec_table spec_OracleBridgeParams v = Ok (bits, refs) -> (11 <= fuel)%nat ->
+  run_type impl_table fuel "OracleBridgeParams" [] (Cell (-1) (bits ++ tb) (refs ++ tr)) = Ok (v, mkS tb tr).
+Proof. exact (C16_generic "OracleBridgeParams" spec_OracleBridgeParams 11 eq_refl eq_refl). Qed.
+Print Assumptions C16_OracleBridgeParams.
+
+Definition ex_OracleBridgeParams : pv :=
+  PObj "OracleBridgeParams" [("bridge_address"%string, PBytes [7%N; 14%N; 21%N; 28%N; 35%N; 42%N; 49%N;
+    56%N; 63%N; 70%N; 77%N; 84%N; 91%N; 98%N; 105%N; 112%N; 119%N; 126%N; 133%N; 140%N; 147%N; 154%N;
+    161%N; 168%N; 175%N; 182%N; 189%N; 196%N; 203%N; 210%N; 217%N; 224%N]);
+    ("bridge_address_hex"%string, PHex [7%N; 14%N; 21%N; 28%N; 35%N; 42%N; 49%N; 56%N; 63%N; 70%N; 77%N;
+    84%N; 91%N; 98%N; 105%N; 112%N; 119%N; 126%N; 133%N; 140%N; 147%N; 154%N; 161%N; 168%N; 175%N;
+    182%N; 189%N; 196%N; 203%N; 210%N; 217%N; 224%N]); ("external_chain_address_hex"%string, PHex [7%N;
+    14%N; 21%N; 28%N; 35%N; 42%N; 49%N; 56%N; 63%N; 70%N; 77%N; 84%N; 91%N; 98%N; 105%N; 112%N; 119%N;
+    126%N; 133%N; 140%N; 147%N; 154%N; 161%N; 168%N; 175%N; 182%N; 189%N; 196%N; 203%N; 210%N; 217%N;
+    224%N]); ("oracle_mutlisig_address"%string, PBytes [7%N; 14%N; 21%N; 28%N; 35%N; 42%N; 49%N; 56%N;
+    63%N; 70%N; 77%N; 84%N; 91%N; 98%N; 105%N; 112%N; 119%N; 126%N; 133%N; 140%N; 147%N; 154%N; 161%N;
+    168%N; 175%N; 182%N; 189%N; 196%N; 203%N; 210%N; 217%N; 224%N]);
+    ("oracle_mutlisig_address_hex"%string, PHex [7%N; 14%N; 21%N; 28%N; 35%N; 42%N; 49%N; 56%N; 63%N;
+    70%N; 77%N; 84%N; 91%N; 98%N; 105%N; 112%N; 119%N; 126%N; 133%N; 140%N; 147%N; 154%N; 161%N; 168%N;
+    175%N; 182%N; 189%N; 196%N; 203%N; 210%N; 217%N; 224%N]); ("oracles"%string, PDict [(3, PInt
+    156648); (10, PInt 156648); (11, PInt 156648)])].
+Example C16_OracleBridgeParams_ex :
+  wt spec_table spec_OracleBridgeParams ex_OracleBridgeParams /\
+  match encode spec_table spec_OracleBridgeParams ex_OracleBridgeParams with
+  | Ok (bits, refs) =>
+      run_type impl_table 11 "OracleBridgeParams" [] (Cell (-1) (bits ++ [true; false]) (refs ++ [Cell (-1) [] []]))
+      = Ok (ex_OracleBridgeParams, mkS [true; false] [Cell (-1) [] []])
+  | Err _ => False
+  end.
+Proof. split; [wt_tac|vm_compute; reflexivity]. Qed.
+
+(* ---- WalletV3Data ---- *)
+Theorem C16_WalletV3Data : forall v tb tr bits refs fuel,
+  wt spec_table spec_WalletV3Data v -> encode spec_table spec_WalletV3Data v = Ok (bits, refs) -> (7 <= fuel)%nat ->
+  run_type impl_table fuel "WalletV3Data" [] (Cell (-1) (bits ++ tb) (refs ++ tr)) = Ok (v, mkS tb tr).
+Proof. exact (C16_generic "WalletV3Data" spec_WalletV3Data 7 eq_refl eq_refl). Qed.
+Print Assumptions C16_WalletV3Data.
+
+Definition ex_WalletV3Data : pv :=
+  PObj "WalletV3Data" [("public_key"%string, PBytes [7%N; 14%N; 21%N; 28%N; 35%N; 42%N; 49%N; 56%N;
+    63%N; 70%N; 77%N; 84%N; 91%N; 98%N; 105%N; 112%N; 119%N; 126%N; 133%N; 140%N; 147%N; 154%N; 161%N;
+    168%N; 175%N; 182%N; 189%N; 196%N; 203%N; 210%N; 217%N; 224%N]); ("seqno"%string, PInt 954413);
+    ("wallet_id"%string, PInt 954413)].
+Example C16_WalletV3Data_ex :
+  wt spec_table spec_WalletV3Data ex_WalletV3Data /\
+  match encode spec_table spec_WalletV3Data ex_WalletV3Data with
+  | Ok (bits, refs) =>
+      run_type impl_table 7 "WalletV3Data" [] (Cell (-1) (bits ++ [true; false]) (refs ++ [Cell (-1) [] []]))
+      = Ok (ex_WalletV3Data, mkS [true; false] [Cell (-1) [] []])
+  | Err _ => False
+  end.
+Proof. split; [wt_tac|vm_compute; reflexivity]. Qed.
+
+(* ---- WalletV4Data ---- *)
+Theorem C16_WalletV4Data : forall v tb tr bits refs fuel,
+  wt spec_table spec_WalletV4Data v -> encode spec_table spec_WalletV4Data v = Ok (bits, refs) -> (9 <= fuel)%nat ->
+  run_type impl_table fuel "WalletV4Data" [] (Cell (-1) (bits ++ tb) (refs ++ tr)) = Ok (v, mkS tb tr).
+Proof. exact (C16_generic "WalletV4Data" spec_WalletV4Data 9 eq_refl eq_refl). Qed.
+Print Assumptions C16_WalletV4Data.
+
+Definition ex_WalletV4Data : pv :=
+  PObj "WalletV4Data" [("plugins"%string, PCell (Cell (-1) [true; false; true] []));
+    ("public_key"%string, PBytes [7%N; 14%N; 21%N; 28%N; 35%N; 42%N; 49%N; 56%N; 63%N; 70%N; 77%N; 84%N;
+    91%N; 98%N; 105%N; 112%N; 119%N; 126%N; 133%N; 140%N; 147%N; 154%N; 161%N; 168%N; 175%N; 182%N;
+    189%N; 196%N; 203%N; 210%N; 217%N; 224%N]); ("seqno"%string, PInt 954413); ("wallet_id"%string, PInt
+    954413)].
+Example C16_WalletV4Data_ex :
+  wt spec_table spec_WalletV4Data ex_WalletV4Data /\
+  match encode spec_table spec_WalletV4Data ex_WalletV4Data with
+  | Ok (bits, refs) =>
+      run_type impl_table 9 "WalletV4Data" [] (Cell (-1) (bits ++ [true; false]) (refs ++ [Cell (-1) [] []]))
+      = Ok (ex_WalletV4Data, mkS [true; false] [Cell (-1) [] []])
+  | Err _ => False
+  end.
+Proof. split; [wt_tac|vm_compute; reflexivity]. Qed.
+
+(* ---- NftItemData ---- *)
+Theorem C16_NftItemData : forall v tb tr bits refs fuel,
+  wt spec_table spec_NftItemData v -> encode spec_table spec_NftItemData v = Ok (bits, refs) -> (8 <= fuel)%nat ->
+  run_type impl_table fuel "NftItemData" [] (Cell (-1) (bits ++ tb) (refs ++ tr)) = Ok (v, mkS tb tr).
+Proof. exact (C16_generic "NftItemData" spec_NftItemData 8 eq_refl eq_refl). Qed.
+Print Assumptions C16_NftItemData.
+
+Definition ex_NftItemData : pv :=
+  PObj "NftItemData" [("collection_address"%string, PAddr (AddrStd None 0 [7%N; 14%N; 21%N; 28%N; 35%N;
+    42%N; 49%N; 56%N; 63%N; 70%N; 77%N; 84%N; 91%N; 98%N; 105%N; 112%N; 119%N; 126%N; 133%N; 140%N;
+    147%N; 154%N; 161%N; 168%N; 175%N; 182%N; 189%N; 196%N; 203%N; 210%N; 217%N; 224%N]));
+    ("content"%string, PCell (Cell (-1) [true; false; true] [])); ("index"%string, PInt 350686);
+    ("owner_address"%string, PAddr (AddrStd None 0 [7%N; 14%N; 21%N; 28%N; 35%N; 42%N; 49%N; 56%N; 63%N;
+    70%N; 77%N; 84%N; 91%N; 98%N; 105%N; 112%N; 119%N; 126%N; 133%N; 140%N; 147%N; 154%N; 161%N; 168%N;
+    175%N; 182%N; 189%N; 196%N; 203%N; 210%N; 217%N; 224%N]))].
+Example C16_NftItemData_ex :
+  wt spec_table spec_NftItemData ex_NftItemData /\
+  match encode spec_table spec_NftItemData ex_NftItemData with
+  | Ok (bits, refs) =>
+      run_type impl_table 8 "NftItemData" [] (Cell (-1) (bits ++ [true; false]) (refs ++ [Cell (-1) [] []]))
+      = Ok (ex_NftItemData, mkS [true; false] [Cell (-1) [] []])
+  | Err _ => False
+  end.
+Proof. split; [wt_tac|vm_compute; reflexivity]. Qed.
+
+(* ---- NftItemSaleFees ---- *)
+Theorem C16_NftItemSaleFees : forall v tb tr bits refs fuel,
+  wt spec_table spec_NftItemSaleFees v -> encode spec_table spec_NftItemSaleFees v = Ok (bits, refs) -> (8 <= fuel)%nat ->
+  run_type impl_table fuel "NftItemSaleFees" [] (Cell (-1) (bits ++ tb) (refs ++ tr)) = Ok (v, mkS tb tr).
+Proof. exact (C16_generic "NftItemSaleFees" spec_NftItemSaleFees 8 eq_refl eq_refl). Qed.
+Print Assumptions C16_NftItemSaleFees.
+
+Definition ex_NftItemSaleFees : pv :=
+  PObj "NftItemSaleFees" [("marketplace_fee"%string, PInt 1000000007);
+    ("marketplace_fee_address"%string, PAddr (AddrStd None 0 [7%N; 14%N; 21%N; 28%N; 35%N; 42%N; 49%N;
+    56%N; 63%N; 70%N; 77%N; 84%N; 91%N; 98%N; 105%N; 112%N; 119%N; 126%N; 133%N; 140%N; 147%N; 154%N;
+    161%N; 168%N; 175%N; 182%N; 189%N; 196%N; 203%N; 210%N; 217%N; 224%N])); ("royalty_address"%string,
+    PAddr (AddrStd None 0 [7%N; 14%N; 21%N; 28%N; 35%N; 42%N; 49%N; 56%N; 63%N; 70%N; 77%N; 84%N; 91%N;
+    98%N; 105%N; 112%N; 119%N; 126%N; 133%N; 140%N; 147%N; 154%N; 161%N; 168%N; 175%N; 182%N; 189%N;
+    196%N; 203%N; 210%N; 217%N; 224%N])); ("royalty_amount"%string, PInt 1000000007)].
+Example C16_NftItemSaleFees_ex :
+  wt spec_table spec_NftItemSaleFees ex_NftItemSaleFees /\
+  match encode spec_table spec_NftItemSaleFees ex_NftItemSaleFees with
+  | Ok (bits, refs) =>
+      run_type impl_table 8 "NftItemSaleFees" [] (Cell (-1) (bits ++ [true; false]) (refs ++ [Cell (-1) [] []]))
+      = Ok (ex_NftItemSaleFees, mkS [true; false] [Cell (-1) [] []])
+  | Err _ => False
+  end.
+Proof. split; [wt_tac|vm_compute; reflexivity]. Qed.
+
+(* ---- NftItemSaleData ---- *)
+Theorem C16_NftItemSaleData : forall v tb tr bits refs fuel,
+  wt spec_table spec_NftItemSaleData v -> encode spec_table spec_NftItemSaleData v = Ok (bits, refs) -> (21 <= fuel)%nat ->
+  run_type impl_table fuel "NftItemSaleData" [] (Cell (-1) (bits ++ tb) (refs ++ tr)) = Ok (v, mkS tb tr).
+Proof. exact (C16_generic "NftItemSaleData" spec_NftItemSaleData 21 eq_refl eq_refl). Qed.
+Print Assumptions C16_NftItemSaleData.
+
+Definition ex_NftItemSaleData : pv :=
+  PObj "NftItemSaleData" [("can_deploy_by_external"%string, PBool true); ("created_at"%string, PInt
+    954413); ("fees_cell"%string, PObj "NftItemSaleFees" [("marketplace_fee"%string, PInt 1000000007);
+    ("marketplace_fee_address"%string, PAddr (AddrStd None 0 [7%N; 14%N; 21%N; 28%N; 35%N; 42%N; 49%N;
+    56%N; 63%N; 70%N; 77%N; 84%N; 91%N; 98%N; 105%N; 112%N; 119%N; 126%N; 133%N; 140%N; 147%N; 154%N;
+    161%N; 168%N; 175%N; 182%N; 189%N; 196%N; 203%N; 210%N; 217%N; 224%N])); ("royalty_address"%string,
+    PAddr (AddrStd None 0 [7%N; 14%N; 21%N; 28%N; 35%N; 42%N; 49%N; 56%N; 63%N; 70%N; 77%N; 84%N; 91%N;
+    98%N; 105%N; 112%N; 119%N; 126%N; 133%N; 140%N; 147%N; 154%N; 161%N; 168%N; 175%N; 182%N; 189%N;
+    196%N; 203%N; 210%N; 217%N; 224%N])); ("royalty_amount"%string, PInt 1000000007)]);
+    ("full_price"%string, PInt 1000000007); ("is_complete"%string, PBool true);
+    ("marketplace_address"%string, PAddr (AddrStd None 0 [7%N; 14%N; 21%N; 28%N; 35%N; 42%N; 49%N; 56%N;
+    63%N; 70%N; 77%N; 84%N; 91%N; 98%N; 105%N; 112%N; 119%N; 126%N; 133%N; 140%N; 147%N; 154%N; 161%N;
+    168%N; 175%N; 182%N; 189%N; 196%N; 203%N; 210%N; 217%N; 224%N])); ("nft_address"%string, PAddr
+    (AddrStd None 0 [7%N; 14%N; 21%N; 28%N; 35%N; 42%N; 49%N; 56%N; 63%N; 70%N; 77%N; 84%N; 91%N; 98%N;
+    105%N; 112%N; 119%N; 126%N; 133%N; 140%N; 147%N; 154%N; 161%N; 168%N; 175%N; 182%N; 189%N; 196%N;
+    203%N; 210%N; 217%N; 224%N])); ("nft_owner_address"%string, PAddr (AddrStd None 0 [7%N; 14%N; 21%N;
+    28%N; 35%N; 42%N; 49%N; 56%N; 63%N; 70%N; 77%N; 84%N; 91%N; 98%N; 105%N; 112%N; 119%N; 126%N; 133%N;
+    140%N; 147%N; 154%N; 161%N; 168%N; 175%N; 182%N; 189%N; 196%N; 203%N; 210%N; 217%N; 224%N]))].
+Example C16_NftItemSaleData_ex :
+  wt spec_table spec_NftItemSaleData ex_NftItemSaleData /\
+  match encode spec_table spec_NftItemSaleData ex_NftItemSaleData with
+  | Ok (bits, refs) =>
+      run_type impl_table 21 "NftItemSaleData" [] (Cell (-1) (bits ++ [true; false]) (refs ++ [Cell (-1) [] []]))
+      = Ok (ex_NftItemSaleData, mkS [true; false] [Cell (-1) [] []])
+  | Err _ => False
+  end.
+Proof. split; [wt_tac|vm_compute; reflexivity]. Qed.
